@@ -19,7 +19,8 @@ import CoclsModel.MutexPtr
   alive; `step_no_conflict`: the next segments of two different agents touch disjoint sets of nodes.
 -/
 namespace Cocls.MutexPtr
-open Cocls.Mutex (Elem Seen Flavour Rel Round AKind Cfg Pc TMain Ev Outcome upd)
+open Cocls.Mutex (Elem Seen Flavour Rel Round AKind Cfg Pc TMain Ev Outcome upd nodesL nodesOf seenOf Inv Listed Owner
+  Waiting canRun TInv LInv WakeOk RunsAs)
 
 /-! ## projections of the ghost helpers (all by `rfl`) -/
 
@@ -280,5 +281,1929 @@ theorem walk_chain (a : Nat) (stop : Ptr) : ∀ (l : List Node) (fuel : Nat) (s 
         show (s.acc ++ [_] ++ [_]) ++ walkAcc a l = s.acc ++ walkAcc a (n :: l)
         simp [walkAcc]
       · rw [i5]; rfl
+
+/-! ## `_requests` as a stack -/
+
+/-- `_requests = p` represents the list-level stack `req`: `[]` = null, `[door]` = the doorman, a node is followed by
+    what its `_next` represents (so the bottom node of a stack without doorman has `_next = null`) -/
+def StackIs (next : Node → Ptr) : Ptr → List Elem → Prop
+  | p, [] => p = Seen.null
+  | p, Elem.door :: r => p = Seen.door ∧ r = []
+  | p, Elem.node a k :: r => p = Seen.node a k ∧ StackIs next (next (a, k)) r
+
+/-- the request nodes of a stack -/
+def nodesN : List Elem → List Node
+  | [] => []
+  | Elem.door :: _ => []
+  | Elem.node a k :: r => (a, k) :: nodesN r
+
+@[simp] theorem nodesN_nil : nodesN [] = [] := rfl
+@[simp] theorem nodesN_door (r) : nodesN (Elem.door :: r) = [] := rfl
+@[simp] theorem nodesN_node (a k r) : nodesN (Elem.node a k :: r) = (a, k) :: nodesN r := rfl
+
+theorem nodesOf_eq_map (r : List Elem) : nodesOf r = (nodesN r).map (·.1) := by
+  induction r with
+  | nil => rfl
+  | cons e r ih => cases e <;> simp [nodesOf, ih]
+
+theorem nodesN_nodesL (xs : List Node) (tl : List Elem) : nodesN (nodesL xs ++ tl) = xs ++ nodesN tl := by
+  induction xs with
+  | nil => rfl
+  | cons x xs ih => simp [nodesL]; exact ih
+
+theorem stackIs_seen {next : Node → Ptr} {p : Ptr} {r : List Elem} (h : StackIs next p r) : seenOf r = p := by
+  cases r with
+  | nil => exact h.symm
+  | cons e r => cases e with
+    | door => exact h.1.symm
+    | node a k => exact h.1.symm
+
+theorem stackIs_nil_iff {next : Node → Ptr} {p : Ptr} {r : List Elem} (h : StackIs next p r) : p = Seen.null ↔ r = [] := by
+  cases r with
+  | nil => have : p = Seen.null := h; simp [this]
+  | cons e r => cases e with
+    | door => simp [h.1]
+    | node a k => simp [h.1]
+
+theorem stackIs_door_iff {next : Node → Ptr} {p : Ptr} {r : List Elem} (h : StackIs next p r) :
+    p = Seen.door ↔ r = [Elem.door] := by
+  cases r with
+  | nil => have : p = Seen.null := h; simp [this]
+  | cons e r => cases e with
+    | door => simp [h.1, h.2]
+    | node a k => simp [h.1]
+
+theorem stackIs_frame' {next next' : Node → Ptr} {p : Ptr} {r : List Elem} (h : StackIs next p r)
+    (hf : ∀ m ∈ nodesN r, next' m = next m) : StackIs next' p r := by
+  induction r generalizing p with
+  | nil => exact h
+  | cons e r ih => cases e with
+    | door => exact h
+    | node a k =>
+      refine ⟨h.1, ?_⟩
+      rw [hf (a, k) (by simp)]
+      exact ih h.2 (fun m hm => hf m (by simp [hm]))
+
+theorem stackIs_frame {next : Node → Ptr} {p : Ptr} {r : List Elem} (n : Node) (v : Ptr) (h : StackIs next p r)
+    (hn : n ∉ nodesN r) : StackIs (updN next n v) p r :=
+  stackIs_frame' h (fun m hm => by rw [updN_apply, if_neg]; rintro rfl; exact hn hm)
+
+/-- a stack ending in the doorman is a chain to the doorman -/
+theorem stackIs_door {next : Node → Ptr} {p : Ptr} (xs : List Node) :
+    StackIs next p (nodesL xs ++ [Elem.door]) ↔ ChainIs next p xs Seen.door := by
+  induction xs generalizing p with
+  | nil => simp [StackIs, nodesL, chain_nil_iff]
+  | cons x xs ih =>
+    simp only [nodesL, List.map_cons, List.cons_append, StackIs]
+    rw [chain_cons_iff]
+    constructor
+    · rintro ⟨e, h⟩
+      refine ⟨e, ?_, (ih).1 h⟩
+      rw [e]; intro h'; cases h'
+    · rintro ⟨e, _, h⟩; exact ⟨e, (ih).2 h⟩
+
+/-- a stack ending in the node of the found-null acquirer is a chain to that node, whose `_next` is null -/
+theorem stackIs_nodeEnd {next : Node → Ptr} {p : Ptr} (xs : List Node) (o : Node) (ho : o ∉ xs) :
+    StackIs next p (nodesL xs ++ [Elem.node o.1 o.2]) ↔ (ChainIs next p xs (Seen.node o.1 o.2) ∧ next o = Seen.null) := by
+  induction xs generalizing p with
+  | nil =>
+    simp only [nodesL, List.map_nil, List.nil_append, StackIs, chain_nil_iff]
+  | cons x xs ih =>
+    simp only [nodesL, List.map_cons, List.cons_append, StackIs]
+    rw [chain_cons_iff]
+    have hx : x ≠ o := fun e => ho (by simp [e])
+    have ho' : o ∉ xs := fun h => ho (by simp [h])
+    constructor
+    · rintro ⟨e, h⟩
+      have := (ih ho').1 h
+      refine ⟨⟨e, ?_, this.1⟩, this.2⟩
+      rw [e]; intro h; injection h with h1 h2; exact hx (Prod.ext h1 h2)
+    · rintro ⟨⟨e, _, h⟩, h2⟩; exact ⟨e, (ih ho').2 ⟨h, h2⟩⟩
+
+/-! ## the representation relation -/
+
+/-- the loop a `build_queue` still has to run (between its exchange and the caller's next segment) moves exactly `det` -/
+def PendIs (ps : State) (det : List Node) : Prop :=
+  (∀ o h st, ps.pend o = some (h, st) → ChainIs ps.next h det st) ∧ ((∀ o, ps.pend o = none) → det = [])
+
+/-- the pointer fields of `ps` represent the list-level stack `req` and queue `q` -/
+structure ReprL (c : Cfg) (ps : State) (req : List Elem) (q : List Nat) : Prop where
+  /-- `_requests` represents the stack -/
+  stack : StackIs ps.next ps.requests req
+  /-- the detached chain `det` of a pending loop (reversed) followed by the chain `q0` of `_queue` is the list-level queue;
+      all these nodes are alive and carry the key of their owner's current request -/
+  que : ∃ det q0, PendIs ps det ∧ ChainIs ps.next ps.queue q0 Seen.null ∧ q = (det.reverse ++ q0).map (·.1) ∧
+          (∀ n ∈ det ++ q0, ps.live n = true ∧ n.2 = keyOf c ps n.1)
+  /-- so are the nodes of the stack -/
+  stk : ∀ n ∈ nodesN req, ps.live n = true ∧ n.2 = keyOf c ps n.1
+  /-- a loop is pending only for the owner right after its exchange; `_queue` is null then (the assertion of `build_queue`) -/
+  pendOwn : ∀ o h st, ps.pend o = some (h, st) → ps.queue = Seen.null ∧
+      ((ps.pc o = Pc.crit ∧ st = Seen.node o (keyOf c ps o)) ∨ (ps.pc o = Pc.relHand ∧ st = Seen.door))
+  /-- no access so far touched a node that was not alive, dereferenced null or the doorman -/
+  noViol : ps.viol = false
+  /-- no assertion of mutex.h failed so far -/
+  noAsrt : ps.asrt = false
+  /-- the doorman's `_next` was never written -/
+  doorN : ps.doorNext = Seen.null
+
+/-- **the representation relation**: `ls` has the control part of `ps`, and `ps` represents its stack and queue -/
+def Repr (c : Cfg) (ps : State) (ls : Mutex.State) : Prop :=
+  ls = absWith ps ls.req ls.queue ∧ ReprL c ps ls.req ls.queue
+
+theorem keyOf_abs (c : Cfg) (s : State) (r : List Elem) (q : List Nat) (a : Nat) :
+    Mutex.keyOf c (absWith s r q) a = keyOf c s a := rfl
+theorem flOf_abs (c : Cfg) (s : State) (r : List Elem) (q : List Nat) (a : Nat) :
+    Mutex.flOf c (absWith s r q) a = flOf c s a := rfl
+theorem relOf_abs (c : Cfg) (s : State) (r : List Elem) (q : List Nat) (a : Nat) :
+    Mutex.relOf c (absWith s r q) a = relOf c s a := rfl
+theorem objOf_abs (c : Cfg) (s : State) (r : List Elem) (q : List Nat) (a : Nat) :
+    Mutex.objOf c (absWith s r q) a = objOf c s a := rfl
+theorem curRound_abs (c : Cfg) (s : State) (r : List Elem) (q : List Nat) (a : Nat) :
+    Mutex.curRound c (absWith s r q) a = curRound c s a := rfl
+
+theorem keyOf_congr {c : Cfg} {s s' : State} (h : s'.round = s.round) (a : Nat) : keyOf c s' a = keyOf c s a := by
+  simp [keyOf, flOf, curRound, h]
+
+/-! ## facts from the list-level invariant -/
+
+theorem inv_nodup {c : Cfg} {s : Mutex.State} (h : Inv c s) : (s.queue ++ nodesOf s.req).Nodup := by
+  rw [List.nodup_iff_count]
+  intro x
+  have := h.cnt x
+  rw [List.count_append]
+  split at this <;> omega
+
+theorem inv_listed_of_mem {c : Cfg} {s : Mutex.State} (h : Inv c s) {x : Nat} (hx : x ∈ s.queue ∨ x ∈ nodesOf s.req) :
+    Listed s x := by
+  have hc := h.cnt x
+  have : 0 < s.queue.count x + (nodesOf s.req).count x := by
+    rcases hx with h1 | h1
+    · have := List.count_pos_iff.2 h1; omega
+    · have := List.count_pos_iff.2 h1; omega
+  split at hc
+  · assumption
+  · omega
+
+theorem listed_iff {s : Mutex.State} {x : Nat} :
+    Listed s x ↔ (s.pc x = Pc.parked ∨ ((s.pc x = Pc.waitFlag ∨ s.pc x = Pc.blocked) ∧ s.flag x = false) ∨ s.pc x = Pc.build) := by
+  unfold Listed
+  generalize s.pc x = p
+  cases p <;> simp [Mutex.isWaiting]
+
+/-- an agent whose pc says that it has no published ungranted request has no node in the stack or the queue -/
+theorem inv_not_mem {c : Cfg} {s : Mutex.State} (h : Inv c s) {x : Nat} (hx : ¬ Listed s x) :
+    x ∉ s.queue ∧ x ∉ nodesOf s.req :=
+  ⟨fun hm => hx (inv_listed_of_mem h (Or.inl hm)), fun hm => hx (inv_listed_of_mem h (Or.inr hm))⟩
+
+theorem chain_null_nil {next : Node → Ptr} {l : List Node} (h : ChainIs next Seen.null l Seen.null) : l = [] := by
+  cases h; rfl
+
+theorem chain_queue_cases {next : Node → Ptr} {p : Ptr} {l : List Node} (h : ChainIs next p l Seen.null) :
+    (p = Seen.null ∧ l = []) ∨ (∃ b k l', p = Seen.node b k ∧ l = (b, k) :: l' ∧ ChainIs next (next (b, k)) l' Seen.null) := by
+  cases h with
+  | nil => exact Or.inl ⟨rfl, rfl⟩
+  | cons _ h' => exact Or.inr ⟨_, _, _, rfl, rfl, h'⟩
+
+theorem mem_map_fst {l : List Node} {n : Node} (h : n ∈ l) : n.1 ∈ l.map (·.1) := List.mem_map.2 ⟨n, h, rfl⟩
+
+/-- a step that changes only control fields (and retires nodes that are not linked) preserves the representation -/
+theorem reprL_ctl {c : Cfg} {ps ps' : State} {req : List Elem} {q : List Nat} (hR : ReprL c ps req q)
+    (h1 : ps'.requests = ps.requests) (h2 : ps'.next = ps.next) (h3 : ps'.queue = ps.queue) (h4 : ps'.pend = ps.pend)
+    (h5 : ps'.viol = ps.viol) (h6 : ps'.asrt = ps.asrt) (h7 : ps'.doorNext = ps.doorNext)
+    (hlive : ∀ n, ps.live n = true → (n.1 ∈ q ∨ n.1 ∈ nodesOf req) → ps'.live n = true)
+    (hpc : ∀ o, ps.pend o ≠ none → ps'.pc o = ps.pc o)
+    (hkey : ∀ o, (ps.pend o ≠ none ∨ o ∈ q ∨ o ∈ nodesOf req) → keyOf c ps' o = keyOf c ps o) : ReprL c ps' req q := by
+  obtain ⟨det, q0, hP, hQ, hq, hL⟩ := hR.que
+  refine ⟨by rw [h1, h2]; exact hR.stack, ⟨det, q0, ?_, by rw [h2, h3]; exact hQ, hq, ?_⟩, ?_, ?_, by rw [h5]; exact hR.noViol,
+    by rw [h6]; exact hR.noAsrt, by rw [h7]; exact hR.doorN⟩
+  · unfold PendIs; rw [h4, h2]; exact hP
+  · intro n hn
+    have hm : n.1 ∈ q := by
+      rw [hq]; apply mem_map_fst
+      simp only [List.mem_append, List.mem_reverse] at hn ⊢; exact hn
+    exact ⟨hlive n (hL n hn).1 (Or.inl hm), by rw [hkey _ (Or.inr (Or.inl hm))]; exact (hL n hn).2⟩
+  · intro n hn
+    have hm : n.1 ∈ nodesOf req := by rw [nodesOf_eq_map]; exact mem_map_fst hn
+    exact ⟨hlive n (hR.stk n hn).1 (Or.inr hm), by rw [hkey _ (Or.inr (Or.inr hm))]; exact (hR.stk n hn).2⟩
+  · intro o h st ho
+    rw [h4] at ho
+    have hne : ps.pend o ≠ none := by rw [ho]; simp
+    rw [h3, hpc o hne, hkey o (Or.inl hne)]
+    exact hR.pendOwn o h st ho
+
+theorem keyOf_round {c : Cfg} {s s' : State} {o : Nat} (h : s'.round o = s.round o) : keyOf c s' o = keyOf c s o := by
+  simp [keyOf, flOf, curRound, h]
+
+/-- `reprL_ctl` for a step of agent `a` (nothing pending): the round of `a` may change when `a` has no linked node -/
+theorem reprL_ctl' {c : Cfg} {ps ps' : State} {req : List Elem} {q : List Nat} (a : Nat) (hR : ReprL c ps req q)
+    (h1 : ps'.requests = ps.requests) (h2 : ps'.next = ps.next) (h3 : ps'.queue = ps.queue) (h4 : ps'.pend = ps.pend)
+    (h5 : ps'.viol = ps.viol) (h6 : ps'.asrt = ps.asrt) (h7 : ps'.doorNext = ps.doorNext)
+    (hlive : ∀ n, ps.live n = true → (n.1 ∈ q ∨ n.1 ∈ nodesOf req) → ps'.live n = true)
+    (hpc : ∀ o, o ≠ a → ps'.pc o = ps.pc o) (hround : ∀ o, o ≠ a → ps'.round o = ps.round o)
+    (hra : ps'.round a = ps.round a ∨ (a ∉ q ∧ a ∉ nodesOf req))
+    (hpa : ps.pend a = none) : ReprL c ps' req q := by
+  have hoa : ∀ o, ps.pend o ≠ none → o ≠ a := fun o h e => h (e ▸ hpa)
+  refine reprL_ctl hR h1 h2 h3 h4 h5 h6 h7 hlive (fun o ho => hpc o (hoa o ho)) (fun o ho => ?_)
+  by_cases hx : o = a
+  · subst hx
+    rcases hra with e | ⟨e1, e2⟩
+    · exact keyOf_round e
+    · rcases ho with ho | ho | ho
+      · exact absurd hpa ho
+      · exact absurd ho e1
+      · exact absurd ho e2
+  · exact keyOf_round (hround o hx)
+
+/-- only the owner has a pending loop -/
+theorem pend_owner {c : Cfg} {ps : State} {req : List Elem} {q : List Nat} (hR : ReprL c ps req q) {o : Nat}
+    (ho : ps.pend o ≠ none) : Owner (absWith ps req q) o := by
+  cases hp : ps.pend o with
+  | none => exact absurd hp ho
+  | some x =>
+    obtain ⟨h, st⟩ := x
+    rcases (hR.pendOwn o h st hp).2 with ⟨e, _⟩ | ⟨e, _⟩ <;> simp [Owner, absWith, e, Mutex.isOwner]
+
+theorem pend_none_of_owner {c : Cfg} {ps : State} {req : List Elem} {q : List Nat} (hR : ReprL c ps req q)
+    (hI : Inv c (absWith ps req q)) {a : Nat} (ha : Owner (absWith ps req q) a) (hpa : ps.pend a = none) :
+    ∀ o, ps.pend o = none := by
+  intro o
+  cases hp : ps.pend o with
+  | none => rfl
+  | some x =>
+    have := hI.excl o a (pend_owner hR (by rw [hp]; simp)) ha
+    subst this; rw [hpa] at hp; cases hp
+
+/-- without a pending loop, `_queue` alone represents the queue -/
+theorem que_of_no_pend {c : Cfg} {ps : State} {req : List Elem} {q : List Nat} (hR : ReprL c ps req q)
+    (hn : ∀ o, ps.pend o = none) :
+    ∃ q0, ChainIs ps.next ps.queue q0 Seen.null ∧ q = q0.map (·.1) ∧ ∀ n ∈ q0, ps.live n = true ∧ n.2 = keyOf c ps n.1 := by
+  obtain ⟨det, q0, hP, hQ, hq, hL⟩ := hR.que
+  have := hP.2 hn
+  subst this
+  exact ⟨q0, hQ, by simpa using hq, fun n hn => hL n (by simpa using hn)⟩
+
+/-- the nodes of the queue part and of the stack are different nodes (their owners are different agents) -/
+theorem disj_of_inv {c : Cfg} {ps : State} {req : List Elem} {q : List Nat} (hI : Inv c (absWith ps req q))
+    {n : Node} (h1 : n.1 ∈ q) (h2 : n ∈ nodesN req) : False := by
+  have hnd := inv_nodup hI
+  have h2' : n.1 ∈ nodesOf req := by rw [nodesOf_eq_map]; exact mem_map_fst h2
+  exact (List.nodup_append.1 hnd).2.2 _ h1 _ h2' rfl
+
+/-- **the pending loop does not change what the pointers represent** (and afterwards nothing is pending for `a`) -/
+theorem reprL_flush {c : Cfg} {ps : State} {req : List Elem} {q : List Nat} (wf a : Nat) (hR : ReprL c ps req q)
+    (hI : Inv c (absWith ps req q)) (hwf : q.length ≤ wf) :
+    ReprL c (flush wf ps a) req q ∧ (∀ r' q', absWith (flush wf ps a) r' q' = absWith ps r' q') ∧
+    (flush wf ps a).pend a = none ∧ (flush wf ps a).live = ps.live ∧
+    ∃ l, (flush wf ps a).acc = ps.acc ++ walkAcc a l ∧ (∀ n ∈ l, n.1 ∈ q) ∧ (ps.pend a = none → l = []) := by
+  cases hp : ps.pend a with
+  | none =>
+    have : flush wf ps a = ps := by unfold flush; rw [hp]
+    rw [this]
+    exact ⟨hR, fun _ _ => rfl, hp, rfl, [], by simp [walkAcc], by simp, fun _ => rfl⟩
+  | some x =>
+    obtain ⟨h, st⟩ := x
+    have hfl : flush wf ps a = walk a st wf
+        { ps with pend := upd ps.pend a none, asrt := ps.asrt || decide (ps.queue ≠ Seen.null) } h := by
+      unfold flush; rw [hp]
+    obtain ⟨det, q0, hP, hQ, hq, hL⟩ := hR.que
+    have hqn := (hR.pendOwn a h st hp).1
+    have hq0 : q0 = [] := by rw [hqn] at hQ; exact chain_null_nil hQ
+    subst hq0
+    have hdet := hP.1 a h st hp
+    have hothers : ∀ o, o ≠ a → ps.pend o = none := by
+      intro o hoa
+      cases hpo : ps.pend o with
+      | none => rfl
+      | some y =>
+        exact absurd (hI.excl o a (pend_owner hR (by rw [hpo]; simp)) (pend_owner hR (by rw [hp]; simp))) hoa
+    have hlen : det.length ≤ wf := by
+      have : q.length = det.length := by rw [hq]; simp
+      omega
+    obtain ⟨w1, w2, w3, w4, w5⟩ := walk_chain a st det wf
+      { ps with pend := upd ps.pend a none, asrt := ps.asrt || decide (ps.queue ≠ Seen.null) } h []
+      hdet (by show ChainIs ps.next ps.queue [] Seen.null; rw [hqn]; exact ChainIs.nil _) (by simp)
+      (fun n hn => (hL n (by simp [hn])).1) hlen
+    obtain ⟨c1, c2, c3, c4, c5⟩ := walk_ctl a st wf
+      { ps with pend := upd ps.pend a none, asrt := ps.asrt || decide (ps.queue ≠ Seen.null) } h
+    rw [← hfl] at w1 w2 w3 w4 w5 c1 c2 c3 c4 c5
+    have hnone : ∀ o, (flush wf ps a).pend o = none := by
+      intro o
+      rw [c2]
+      show upd ps.pend a none o = none
+      by_cases hoa : o = a
+      · subst hoa; simp
+      · rw [Mutex.upd_other _ _ _ _ hoa]; exact hothers o hoa
+    have hkey : ∀ o, keyOf c (flush wf ps a) o = keyOf c ps o := by
+      intro o
+      have := congrArg (fun s => Mutex.keyOf c s o) (c1 [] [])
+      exact this
+    have hmemq : ∀ n ∈ det, n.1 ∈ q := by
+      intro n hn; rw [hq]; apply mem_map_fst; simp [hn]
+    refine ⟨⟨?_, ⟨[], det.reverse, ⟨fun o h' st' ho => (by rw [hnone o] at ho; cases ho), fun _ => rfl⟩, by simpa using w1,
+      by simpa using hq, ?_⟩, ?_, ?_, by rw [w3]; exact hR.noViol, ?_, by rw [w5]; exact hR.doorN⟩, fun r' q' => by rw [c1]; rfl,
+      hnone a, by rw [c3], det, by rw [w4], hmemq, fun h => by cases h⟩
+    · rw [c4]
+      refine stackIs_frame' hR.stack ?_
+      intro m hm
+      rw [w2 m]
+      intro hmd
+      exact disj_of_inv hI (hmemq m hmd) hm
+    · intro n hn
+      rw [c3, hkey]
+      exact hL n (by simpa using hn)
+    · intro n hn
+      rw [c3, hkey]
+      exact hR.stk n hn
+    · intro o h' st' ho; rw [hnone o] at ho; cases ho
+    · rw [c5]
+      show (ps.asrt || decide (ps.queue ≠ Seen.null)) = false
+      rw [hR.noAsrt, hqn]; rfl
+
+/-! ## projections of the abstraction (all by `rfl`) -/
+@[simp] theorem absWith_req (s : State) (r : List Elem) (q : List Nat) : (absWith s r q).req = r := rfl
+@[simp] theorem absWith_queue (s : State) (r : List Elem) (q : List Nat) : (absWith s r q).queue = q := rfl
+@[simp] theorem absWith_flag (s : State) (r : List Elem) (q : List Nat) : (absWith s r q).flag = s.flag := rfl
+@[simp] theorem absWith_flagNo (s : State) (r : List Elem) (q : List Nat) : (absWith s r q).flagNo = s.flagNo := rfl
+@[simp] theorem absWith_flagTh (s : State) (r : List Elem) (q : List Nat) : (absWith s r q).flagTh = s.flagTh := rfl
+@[simp] theorem absWith_flagIx (s : State) (r : List Elem) (q : List Nat) : (absWith s r q).flagIx = s.flagIx := rfl
+@[simp] theorem absWith_held (s : State) (r : List Elem) (q : List Nat) : (absWith s r q).held = s.held := rfl
+@[simp] theorem absWith_aux (s : State) (r : List Elem) (q : List Nat) : (absWith s r q).aux = s.aux := rfl
+@[simp] theorem absWith_pc (s : State) (r : List Elem) (q : List Nat) : (absWith s r q).pc = s.pc := rfl
+@[simp] theorem absWith_round (s : State) (r : List Elem) (q : List Nat) : (absWith s r q).round = s.round := rfl
+@[simp] theorem absWith_incs (s : State) (r : List Elem) (q : List Nat) : (absWith s r q).incs = s.incs := rfl
+@[simp] theorem absWith_cur (s : State) (r : List Elem) (q : List Nat) : (absWith s r q).cur = s.cur := rfl
+@[simp] theorem absWith_rq (s : State) (r : List Elem) (q : List Nat) : (absWith s r q).rq = s.rq := rfl
+@[simp] theorem absWith_tmain (s : State) (r : List Elem) (q : List Nat) : (absWith s r q).tmain = s.tmain := rfl
+@[simp] theorem absWith_grants (s : State) (r : List Elem) (q : List Nat) : (absWith s r q).grants = s.grants := rfl
+@[simp] theorem absWith_stamp (s : State) (r : List Elem) (q : List Nat) : (absWith s r q).stamp = s.stamp := rfl
+@[simp] theorem absWith_clock (s : State) (r : List Elem) (q : List Nat) : (absWith s r q).clock = s.clock := rfl
+@[simp] theorem absWith_grantLog (s : State) (r : List Elem) (q : List Nat) : (absWith s r q).grantLog = s.grantLog := rfl
+@[simp] theorem absWith_fails (s : State) (r : List Elem) (q : List Nat) : (absWith s r q).fails = s.fails := rfl
+@[simp] theorem absWith_grantReqs (s : State) (r : List Elem) (q : List Nat) : (absWith s r q).grantReqs = s.grantReqs := rfl
+@[simp] theorem absWith_failReqs (s : State) (r : List Elem) (q : List Nat) : (absWith s r q).failReqs = s.failReqs := rfl
+@[simp] theorem absWith_bad (s : State) (r : List Elem) (q : List Nat) : (absWith s r q).bad = s.bad := rfl
+
+/-! ## projections of `create`, `subWrite`, `popHead` -/
+theorem create_requests (s : State) (a : Nat) (n : Node) : (create s a n).requests = s.requests := by unfold create; split <;> rfl
+theorem create_next (s : State) (a : Nat) (n : Node) : (create s a n).next = s.next := by unfold create; split <;> rfl
+theorem create_doorNext (s : State) (a : Nat) (n : Node) : (create s a n).doorNext = s.doorNext := by unfold create; split <;> rfl
+theorem create_queue (s : State) (a : Nat) (n : Node) : (create s a n).queue = s.queue := by unfold create; split <;> rfl
+theorem create_pend (s : State) (a : Nat) (n : Node) : (create s a n).pend = s.pend := by unfold create; split <;> rfl
+theorem create_pc (s : State) (a : Nat) (n : Node) : (create s a n).pc = s.pc := by unfold create; split <;> rfl
+theorem create_round (s : State) (a : Nat) (n : Node) : (create s a n).round = s.round := by unfold create; split <;> rfl
+theorem create_asrt (s : State) (a : Nat) (n : Node) : (create s a n).asrt = s.asrt := by unfold create; split <;> rfl
+theorem absWith_create (s : State) (a : Nat) (n : Node) (r : List Elem) (q : List Nat) :
+    absWith (create s a n) r q = absWith s r q := by unfold create; split <;> rfl
+theorem create_live_self (s : State) (a : Nat) (n : Node) : (create s a n).live n = true := by
+  unfold create; split
+  · assumption
+  · simp [touch]
+theorem create_live_mono (s : State) (a : Nat) (n m : Node) (h : s.live m = true) : (create s a n).live m = true := by
+  unfold create; split
+  · exact h
+  · show updN s.live n true m = true
+    rw [updN_apply]; split <;> simp [h]
+theorem create_live_other (s : State) (a : Nat) (n m : Node) (h : m ≠ n) : (create s a n).live m = s.live m := by
+  unfold create; split
+  · rfl
+  · show updN s.live n true m = s.live m
+    rw [updN_apply, if_neg h]
+theorem create_viol (s : State) (a : Nat) (n : Node) : (create s a n).viol = s.viol := by
+  unfold create; split
+  · rfl
+  · simp [touch, isLive]
+/-- the accesses of `create`: nothing, or the set-up write of the new awaiter -/
+theorem create_acc (s : State) (a : Nat) (n : Node) :
+    (create s a n).acc = s.acc ∨ (create s a n).acc = s.acc ++ [⟨a, Seen.node n.1 n.2, Field.body, true⟩] := by
+  unfold create; split
+  · exact Or.inl rfl
+  · exact Or.inr rfl
+theorem keyOf_create (c : Cfg) (s : State) (a : Nat) (n : Node) (o : Nat) : keyOf c (create s a n) o = keyOf c s o :=
+  keyOf_round (by rw [create_round])
+
+theorem subWrite_requests (c : Cfg) (s : State) (a : Nat) (p : Seen) : (subWrite c s a p).requests = s.requests :=
+  create_requests s a (a, keyOf c s a)
+theorem subWrite_doorNext (c : Cfg) (s : State) (a : Nat) (p : Seen) : (subWrite c s a p).doorNext = s.doorNext :=
+  create_doorNext s a (a, keyOf c s a)
+theorem subWrite_queue (c : Cfg) (s : State) (a : Nat) (p : Seen) : (subWrite c s a p).queue = s.queue :=
+  create_queue s a (a, keyOf c s a)
+theorem subWrite_pend (c : Cfg) (s : State) (a : Nat) (p : Seen) : (subWrite c s a p).pend = s.pend :=
+  create_pend s a (a, keyOf c s a)
+theorem subWrite_pc (c : Cfg) (s : State) (a : Nat) (p : Seen) : (subWrite c s a p).pc = s.pc :=
+  create_pc s a (a, keyOf c s a)
+theorem subWrite_round (c : Cfg) (s : State) (a : Nat) (p : Seen) : (subWrite c s a p).round = s.round :=
+  create_round s a (a, keyOf c s a)
+theorem subWrite_asrt (c : Cfg) (s : State) (a : Nat) (p : Seen) : (subWrite c s a p).asrt = s.asrt :=
+  create_asrt s a (a, keyOf c s a)
+@[simp] theorem subWrite_next (c : Cfg) (s : State) (a : Nat) (p : Seen) :
+    (subWrite c s a p).next = updN s.next (a, keyOf c s a) p := rfl
+theorem absWith_subWrite (c : Cfg) (s : State) (a : Nat) (p : Seen) (r : List Elem) (q : List Nat) :
+    absWith (subWrite c s a p) r q = absWith s r q := by
+  show absWith (create s a (a, keyOf c s a)) r q = absWith s r q
+  exact absWith_create ..
+theorem subWrite_live (c : Cfg) (s : State) (a : Nat) (p : Seen) : (subWrite c s a p).live = (create s a (a, keyOf c s a)).live := rfl
+theorem subWrite_viol (c : Cfg) (s : State) (a : Nat) (p : Seen) : (subWrite c s a p).viol = s.viol := by
+  show ((create s a (a, keyOf c s a)).viol || !isLive (create s a (a, keyOf c s a)) (Seen.node a (keyOf c s a))) = s.viol
+  rw [create_viol, isLive_node, create_live_self]; simp
+theorem keyOf_subWrite (c : Cfg) (s : State) (a : Nat) (p : Seen) (o : Nat) : keyOf c (subWrite c s a p) o = keyOf c s o :=
+  keyOf_round (by rw [subWrite_round])
+
+@[simp] theorem popHead_requests (s : State) (a b k : Nat) : (popHead s a b k).requests = s.requests := rfl
+@[simp] theorem popHead_doorNext (s : State) (a b k : Nat) : (popHead s a b k).doorNext = s.doorNext := rfl
+@[simp] theorem popHead_pend (s : State) (a b k : Nat) : (popHead s a b k).pend = s.pend := rfl
+@[simp] theorem popHead_flag (s : State) (a b k : Nat) : (popHead s a b k).flag = s.flag := rfl
+@[simp] theorem popHead_flagNo (s : State) (a b k : Nat) : (popHead s a b k).flagNo = s.flagNo := rfl
+@[simp] theorem popHead_flagTh (s : State) (a b k : Nat) : (popHead s a b k).flagTh = s.flagTh := rfl
+@[simp] theorem popHead_flagIx (s : State) (a b k : Nat) : (popHead s a b k).flagIx = s.flagIx := rfl
+@[simp] theorem popHead_held (s : State) (a b k : Nat) : (popHead s a b k).held = s.held := rfl
+@[simp] theorem popHead_aux (s : State) (a b k : Nat) : (popHead s a b k).aux = s.aux := rfl
+@[simp] theorem popHead_pc (s : State) (a b k : Nat) : (popHead s a b k).pc = s.pc := rfl
+@[simp] theorem popHead_round (s : State) (a b k : Nat) : (popHead s a b k).round = s.round := rfl
+@[simp] theorem popHead_incs (s : State) (a b k : Nat) : (popHead s a b k).incs = s.incs := rfl
+@[simp] theorem popHead_cur (s : State) (a b k : Nat) : (popHead s a b k).cur = s.cur := rfl
+@[simp] theorem popHead_rq (s : State) (a b k : Nat) : (popHead s a b k).rq = s.rq := rfl
+@[simp] theorem popHead_tmain (s : State) (a b k : Nat) : (popHead s a b k).tmain = s.tmain := rfl
+@[simp] theorem popHead_stamp (s : State) (a b k : Nat) : (popHead s a b k).stamp = s.stamp := rfl
+@[simp] theorem popHead_clock (s : State) (a b k : Nat) : (popHead s a b k).clock = s.clock := rfl
+@[simp] theorem popHead_grantLog (s : State) (a b k : Nat) : (popHead s a b k).grantLog = s.grantLog := rfl
+@[simp] theorem popHead_fails (s : State) (a b k : Nat) : (popHead s a b k).fails = s.fails := rfl
+@[simp] theorem popHead_failReqs (s : State) (a b k : Nat) : (popHead s a b k).failReqs = s.failReqs := rfl
+@[simp] theorem popHead_bad (s : State) (a b k : Nat) : (popHead s a b k).bad = s.bad := rfl
+@[simp] theorem popHead_asrt (s : State) (a b k : Nat) : (popHead s a b k).asrt = s.asrt := rfl
+@[simp] theorem popHead_live (s : State) (a b k : Nat) : (popHead s a b k).live = s.live := rfl
+@[simp] theorem popHead_queue (s : State) (a b k : Nat) : (popHead s a b k).queue = s.next (b, k) := rfl
+@[simp] theorem popHead_next (s : State) (a b k : Nat) : (popHead s a b k).next = updN s.next (b, k) Seen.null := rfl
+@[simp] theorem popHead_grants (s : State) (a b k : Nat) : (popHead s a b k).grants = upd s.grants b (s.grants b + 1) := rfl
+@[simp] theorem popHead_grantReqs (s : State) (a b k : Nat) : (popHead s a b k).grantReqs = s.grantReqs ++ [(b, s.round b)] := rfl
+theorem popHead_viol (s : State) (a b k : Nat) (h : s.live (b, k) = true) : (popHead s a b k).viol = s.viol := by
+  show (s.viol || !isLive s (Seen.node b k)) = s.viol
+  simp [h]
+theorem popHead_acc (s : State) (a b k : Nat) : (popHead s a b k).acc = s.acc ++
+    [⟨a, Seen.node b k, Field.next, false⟩, ⟨a, Seen.node b k, Field.next, true⟩, ⟨a, Seen.node b k, Field.body, false⟩] := rfl
+theorem keyOf_popHead (c : Cfg) (s : State) (a b k : Nat) (o : Nat) : keyOf c (popHead s a b k) o = keyOf c s o :=
+  keyOf_round rfl
+
+
+/-! ## simulation, step by step -/
+
+/-- what the simulation of one step has to establish: same events and outcome, the list-level result has the control
+    part of the pointer-level result, and the pointer-level result represents its stack and queue -/
+def SimStep (c : Cfg) (pr : State × List Ev × Outcome) (lr : Mutex.State × List Ev × Outcome) : Prop :=
+  pr.2 = lr.2 ∧ lr.1 = absWith pr.1 lr.1.req lr.1.queue ∧ ReprL c pr.1 lr.1.req lr.1.queue
+
+variable {c : Cfg} {ps : State} {req : List Elem} {q : List Nat} {t a : Nat}
+
+theorem not_listed_of_pc {s : Mutex.State} {x : Nat}
+    (h : s.pc x ≠ Pc.parked ∧ s.pc x ≠ Pc.waitFlag ∧ s.pc x ≠ Pc.blocked ∧ s.pc x ≠ Pc.build) : ¬ Listed s x := by
+  rw [listed_iff]; rintro (e | ⟨e | e, _⟩ | e) <;> simp_all
+
+theorem upd_ne {α} (f : Nat → α) {i j : Nat} (v : α) (h : j ≠ i) : upd f i v j = f j := Mutex.upd_other f i j v h
+
+/-- the stack may change (`req'`), the queue part is framed -/
+theorem reprL_frame {ps' : State} {req' : List Elem} (hR : ReprL c ps req q)
+    (hstack : StackIs ps'.next ps'.requests req')
+    (hstk : ∀ n ∈ nodesN req', ps'.live n = true ∧ n.2 = keyOf c ps' n.1)
+    (hnext : ∀ n : Node, n.1 ∈ q → ps'.next n = ps.next n)
+    (h3 : ps'.queue = ps.queue) (h4 : ps'.pend = ps.pend)
+    (h5 : ps'.viol = ps.viol) (h6 : ps'.asrt = ps.asrt) (h7 : ps'.doorNext = ps.doorNext)
+    (hlive : ∀ n : Node, ps.live n = true → n.1 ∈ q → ps'.live n = true)
+    (hpc : ∀ o, ps.pend o ≠ none → ps'.pc o = ps.pc o)
+    (hkey : ∀ o, (ps.pend o ≠ none ∨ o ∈ q) → keyOf c ps' o = keyOf c ps o) : ReprL c ps' req' q := by
+  obtain ⟨det, q0, hP, hQ, hq, hL⟩ := hR.que
+  have hmem : ∀ n ∈ det ++ q0, n.1 ∈ q := by
+    intro n hn
+    rw [hq]; apply mem_map_fst
+    simp only [List.mem_append, List.mem_reverse] at hn ⊢; exact hn
+  refine ⟨hstack, ⟨det, q0, ?_, ?_, hq, ?_⟩, hstk, ?_, by rw [h5]; exact hR.noViol,
+    by rw [h6]; exact hR.noAsrt, by rw [h7]; exact hR.doorN⟩
+  · refine ⟨?_, fun hn => hP.2 (by rw [← h4]; exact hn)⟩
+    intro o h st ho
+    rw [h4] at ho
+    exact chain_frame' (hP.1 o h st ho) (fun m hm => hnext m (hmem m (by simp [hm])))
+  · rw [h3]
+    exact chain_frame' hQ (fun m hm => hnext m (hmem m (by simp [hm])))
+  · intro n hn
+    exact ⟨hlive n (hL n hn).1 (hmem n hn), by rw [hkey _ (Or.inr (hmem n hn))]; exact (hL n hn).2⟩
+  · intro o h st ho
+    rw [h4] at ho
+    have hne : ps.pend o ≠ none := by rw [ho]; simp
+    rw [h3, hpc o hne, hkey o (Or.inl hne)]
+    exact hR.pendOwn o h st ho
+
+/-- a step of `a` that changes only control fields of `a` (not its round) -/
+macro "ctl_case" hR:ident hpa:ident : tactic => `(tactic|
+  (refine ⟨rfl, rfl, ?_⟩
+   exact reprL_ctl' _ $hR rfl rfl rfl rfl rfl rfl rfl (fun n h _ => h)
+     (fun o ho => by simp [setPc, upd_ne _ _ ho]) (fun o _ => rfl) (Or.inl rfl) $hpa))
+
+/-- … that also advances the round of `a`, which has no linked node -/
+macro "ctl_case_round" hR:ident hpa:ident hnm:ident : tactic => `(tactic|
+  (refine ⟨rfl, rfl, ?_⟩
+   exact reprL_ctl' _ $hR rfl rfl rfl rfl rfl rfl rfl (fun n h _ => h)
+     (fun o ho => by simp [setPc, upd_ne _ _ ho]) (fun o ho => by simp [setPc, upd_ne _ _ ho]) (Or.inr $hnm) $hpa))
+
+theorem sim_tryFail (hR : ReprL c ps req q) (hI : Inv c (absWith ps req q)) (hpa : ps.pend a = none)
+    (hpc : ps.pc a = Pc.tryFail) : SimStep c (stepCore c ps t a) (Mutex.agentStep c (absWith ps req q) t a) := by
+  have hnm := inv_not_mem hI (not_listed_of_pc (x := a) (by simp [hpc]))
+  unfold stepCore Mutex.agentStep
+  simp only [absWith_pc, hpc]
+  ctl_case_round hR hpa hnm
+
+theorem sim_relDone (hR : ReprL c ps req q) (hI : Inv c (absWith ps req q)) (hpa : ps.pend a = none)
+    (hpc : ps.pc a = Pc.relDone) : SimStep c (stepCore c ps t a) (Mutex.agentStep c (absWith ps req q) t a) := by
+  have hnm := inv_not_mem hI (not_listed_of_pc (x := a) (by simp [hpc]))
+  unfold stepCore Mutex.agentStep
+  simp only [absWith_pc, hpc, relOf_abs]
+  by_cases hg : relOf c ps a = some Rel.g
+  · simp only [hg]; ctl_case_round hR hpa hnm
+  · split
+    · rename_i h; exact absurd h hg
+    · split
+      · rename_i h; exact absurd h hg
+      · ctl_case_round hR hpa hnm
+
+theorem sim_subInit (hR : ReprL c ps req q) (hpa : ps.pend a = none)
+    (hpc : ps.pc a = Pc.subInit) : SimStep c (stepCore c ps t a) (Mutex.agentStep c (absWith ps req q) t a) := by
+  unfold stepCore Mutex.agentStep
+  simp only [absWith_pc, hpc, flOf_abs]
+  by_cases hg : flOf c ps a = some Flavour.cb
+  · simp only [hg]; ctl_case hR hpa
+  · split
+    · rename_i h; exact absurd h hg
+    · split
+      · rename_i h; exact absurd h hg
+      · ctl_case hR hpa
+
+theorem sim_waitFlag (hR : ReprL c ps req q) (hpa : ps.pend a = none)
+    (hpc : ps.pc a = Pc.waitFlag) : SimStep c (stepCore c ps t a) (Mutex.agentStep c (absWith ps req q) t a) := by
+  unfold stepCore Mutex.agentStep
+  simp only [absWith_pc, hpc, flOf_abs, absWith_flag]
+  by_cases h1 : flOf c ps a = some Flavour.cb <;> by_cases h2 : ps.flag a = true <;> simp only [h1, h2, if_true, if_false] <;>
+    ctl_case hR hpa
+
+theorem sim_blocked (hR : ReprL c ps req q) (hpa : ps.pend a = none)
+    (hpc : ps.pc a = Pc.blocked) : SimStep c (stepCore c ps t a) (Mutex.agentStep c (absWith ps req q) t a) := by
+  unfold stepCore Mutex.agentStep
+  simp only [absWith_pc, hpc, flOf_abs]
+  by_cases h1 : flOf c ps a = some Flavour.cb <;> simp only [h1, if_true, if_false] <;> ctl_case hR hpa
+
+theorem stepCore_afterCs_g (c : Cfg) (s : State) (t x : Nat) (hA : s.pc x = Pc.afterCs) (hg : relOf c s x = some Rel.g) :
+    stepCore c s t x = ({ setPc { s with incs := s.incs - 1 } x Pc.asg with aux := upd s.aux x true },
+                        [Ev.auxCas t x true], Outcome.op) := by
+  unfold stepCore
+  simp only [hA, hg]
+
+theorem stepCore_afterCs_ng (c : Cfg) (s : State) (t x : Nat) (hA : s.pc x = Pc.afterCs) (hg : relOf c s x ≠ some Rel.g) :
+    stepCore c s t x = unlockStart c { s with incs := s.incs - 1 } t x := by
+  unfold stepCore
+  simp only [hA]
+
+theorem stepCore_asg (c : Cfg) (s : State) (t x : Nat) (hS : s.pc x = Pc.asg) :
+    stepCore c s t x = unlockStart c s t x := by
+  unfold stepCore; simp only [hS]
+
+theorem stepCore_relHand (c : Cfg) (s : State) (t x : Nat) (hR : s.pc x = Pc.relHand) :
+    stepCore c s t x = handOver c s t x := by
+  unfold stepCore; simp only [hR]
+
+theorem sim_afterCs_g (hR : ReprL c ps req q) (hpa : ps.pend a = none)
+    (hpc : ps.pc a = Pc.afterCs) (hg : relOf c ps a = some Rel.g) :
+    SimStep c (stepCore c ps t a) (Mutex.agentStep c (absWith ps req q) t a) := by
+  rw [stepCore_afterCs_g c ps t a hpc hg, Mutex.agentStep_afterCs_g c (absWith ps req q) t a hpc hg]
+  ctl_case hR hpa
+
+/-- `ready()` succeeded: `[]`/null becomes `[door]`/doorman -/
+theorem sim_top (hR : ReprL c ps req q) (hpa : ps.pend a = none)
+    (hpc : ps.pc a = Pc.top) : SimStep c (stepCore c ps t a) (Mutex.agentStep c (absWith ps req q) t a) := by
+  unfold stepCore Mutex.agentStep
+  simp only [absWith_pc, hpc, curRound_abs]
+  cases hr : curRound c ps a with
+  | none => simp only []; ctl_case hR hpa
+  | some r =>
+    simp only [absWith_req]
+    cases hq : req with
+    | nil =>
+      have hn : ps.requests = Seen.null := (stackIs_nil_iff hR.stack).2 hq
+      simp only [hn, if_true]
+      refine ⟨rfl, rfl, ?_⟩
+      refine reprL_frame hR ⟨rfl, rfl⟩ (by simp) (fun _ _ => rfl) rfl rfl rfl rfl rfl (fun n h _ => h) (fun o ho => ?_)
+        (fun o _ => keyOf_round rfl)
+      have hoa : o ≠ a := fun e => ho (e ▸ hpa)
+      simp [setPc, upd_ne _ _ hoa]
+    | cons e r' =>
+      have hn : ps.requests ≠ Seen.null := fun h => by
+        have := (stackIs_nil_iff hR.stack).1 h; rw [hq] at this; cases this
+      have hs : seenOf (e :: r') = ps.requests := by rw [← hq]; exact stackIs_seen hR.stack
+      simp only [hn, if_false, hs]
+      subst hq
+      ctl_case hR hpa
+
+
+/-! ### `subscribe` -/
+
+/-- the plain part of a `subscribe` iteration writes only the requester's own, unlinked node -/
+theorem reprL_subWrite (hR : ReprL c ps req q) (hnm : a ∉ q ∧ a ∉ nodesOf req) (prev : Seen) :
+    ReprL c (subWrite c ps a prev) req q := by
+  have hn : (a, keyOf c ps a) ∉ nodesN req := fun h => hnm.2 (by rw [nodesOf_eq_map]; exact mem_map_fst h)
+  refine reprL_frame hR ?_ ?_ ?_ (subWrite_queue ..) (subWrite_pend ..) (subWrite_viol ..) (subWrite_asrt ..)
+    (subWrite_doorNext ..) ?_ ?_ ?_
+  · rw [subWrite_next, subWrite_requests]; exact stackIs_frame _ _ hR.stack hn
+  · intro n hn'
+    rw [subWrite_live, keyOf_subWrite]
+    exact ⟨create_live_mono _ _ _ _ (hR.stk n hn').1, (hR.stk n hn').2⟩
+  · intro n hq
+    rw [subWrite_next, updN_apply, if_neg]
+    rintro rfl; exact hnm.1 hq
+  · intro n h _; rw [subWrite_live]; exact create_live_mono _ _ _ _ h
+  · intro o _; rw [subWrite_pc]
+  · intro o _; exact keyOf_subWrite ..
+
+/-- the publishing CAS: success pushes the node (whose `_next` holds the expected value), failure changes nothing -/
+theorem sim_subCas {prev : Seen} (hR : ReprL c ps req q) (hpa : ps.pend a = none) (hpc : ps.pc a = Pc.sub prev)
+    (hnx : ps.next (a, keyOf c ps a) = prev) (hlv : ps.live (a, keyOf c ps a) = true) :
+    SimStep c (subCas c ps t a prev) (Mutex.agentStep c (absWith ps req q) t a) := by
+  have hs : seenOf req = ps.requests := stackIs_seen hR.stack
+  unfold subCas Mutex.agentStep
+  simp only [absWith_pc, hpc, absWith_req, keyOf_abs, flOf_abs, hs, absWith_clock, absWith_stamp, absWith_cur]
+  by_cases h : ps.requests = prev
+  · simp only [h, if_true]
+    refine ⟨rfl, rfl, ?_⟩
+    refine reprL_frame hR ⟨rfl, ?_⟩ ?_ (fun _ _ => rfl) rfl rfl rfl rfl rfl (fun n h _ => h) (fun o ho => ?_)
+      (fun o _ => keyOf_round rfl)
+    · show StackIs ps.next (ps.next (a, keyOf c ps a)) req
+      rw [hnx, ← h]; exact hR.stack
+    · intro n hn
+      rcases List.mem_cons.1 hn with e | e
+      · rw [e]; exact ⟨hlv, rfl⟩
+      · exact hR.stk n e
+    · have hoa : o ≠ a := fun e => ho (e ▸ hpa)
+      simp [setPc, upd_ne _ _ hoa]
+  · simp only [h, if_false]
+    ctl_case hR hpa
+
+theorem sim_sub {prev : Seen} (hR : ReprL c ps req q) (hI : Inv c (absWith ps req q)) (hpa : ps.pend a = none)
+    (hpc : ps.pc a = Pc.sub prev) : SimStep c (stepCore c ps t a) (Mutex.agentStep c (absWith ps req q) t a) := by
+  have hnm := inv_not_mem hI (not_listed_of_pc (x := a) (by simp [hpc]))
+  have e : stepCore c ps t a = subCas c (subWrite c ps a prev) t a prev := by
+    unfold stepCore; simp only [hpc]; rfl
+  rw [e, ← absWith_subWrite c ps a prev req q]
+  refine sim_subCas (reprL_subWrite hR hnm prev) (by rw [subWrite_pend]; exact hpa) (by rw [subWrite_pc]; exact hpc) ?_ ?_
+  · rw [keyOf_subWrite, subWrite_next, updN_same]
+  · rw [keyOf_subWrite, subWrite_live]; exact create_live_self ..
+
+/-! ### the granted requester continues (`crit`, `critS`): its awaiter is retired -/
+
+theorem sim_crit (hR : ReprL c ps req q) (hI : Inv c (absWith ps req q)) (hpa : ps.pend a = none)
+    (hpc : ps.pc a = Pc.crit ∨ ps.pc a = Pc.critS) :
+    SimStep c (stepCore c ps t a) (Mutex.agentStep c (absWith ps req q) t a) := by
+  have hnm := inv_not_mem hI (not_listed_of_pc (x := a) (by rcases hpc with e | e <;> simp [e]))
+  have hlive : ∀ n : Node, ps.live n = true → (n.1 ∈ q ∨ n.1 ∈ nodesOf req) → retire c ps a n = true := by
+    intro n h hm
+    unfold retire
+    rw [updN_apply, if_neg]
+    · exact h
+    · rintro rfl
+      rcases hm with hm | hm
+      · exact hnm.1 hm
+      · exact hnm.2 hm
+  unfold stepCore Mutex.agentStep
+  rcases hpc with hpc | hpc <;> simp only [absWith_pc, hpc] <;>
+  · refine ⟨rfl, rfl, ?_⟩
+    exact reprL_ctl' _ hR rfl rfl rfl rfl rfl rfl rfl hlive
+      (fun o ho => by simp [setPc, upd_ne _ _ ho]) (fun o _ => rfl) (Or.inl rfl) hpa
+
+
+/-! ### `build_queue`: the exchange -/
+
+/-- the exchange detaches the whole stack: the chain `xs` from the old top to the stop marker becomes the pending loop's
+    work, the list-level queue becomes `xs` reversed -/
+theorem reprL_xchg {ps' : State} {xs : List Node} {st : Ptr} {q' : List Nat} (hR : ReprL c ps req q)
+    (hnone : ∀ o, ps.pend o = none) (hq : q = [])
+    (hch : ChainIs ps.next ps.requests xs st) (hlv : ∀ n ∈ xs, ps.live n = true ∧ n.2 = keyOf c ps n.1)
+    (hq' : q' = xs.reverse.map (·.1))
+    (h1 : ps'.requests = Seen.door) (h2 : ps'.next = ps.next) (h3 : ps'.queue = ps.queue)
+    (h4 : ps'.pend = upd ps.pend a (some (ps.requests, st)))
+    (h5 : ps'.viol = ps.viol) (h6 : ps'.asrt = ps.asrt) (h7 : ps'.doorNext = ps.doorNext) (h8 : ps'.live = ps.live)
+    (h9 : ps'.round = ps.round)
+    (hst : (ps'.pc a = Pc.crit ∧ st = Seen.node a (keyOf c ps a)) ∨ (ps'.pc a = Pc.relHand ∧ st = Seen.door)) :
+    ReprL c ps' [Elem.door] q' := by
+  obtain ⟨q0, hQ, hqq, _⟩ := que_of_no_pend hR hnone
+  have hq0 : q0 = [] := by
+    rw [hq] at hqq; cases q0 with
+    | nil => rfl
+    | cons x l => simp at hqq
+  subst hq0
+  have hqn : ps.queue = Seen.null := chain_nil_iff.1 hQ
+  have hkey : ∀ o, keyOf c ps' o = keyOf c ps o := fun o => keyOf_round (by rw [h9])
+  have hpend : ∀ o h st', ps'.pend o = some (h, st') → o = a ∧ h = ps.requests ∧ st' = st := by
+    intro o h st' ho
+    rw [h4] at ho
+    by_cases hoa : o = a
+    · subst hoa
+      rw [Mutex.upd_same] at ho
+      injection ho with ho; injection ho with e1 e2
+      exact ⟨rfl, e1.symm, e2.symm⟩
+    · rw [upd_ne _ _ hoa, hnone o] at ho; cases ho
+  refine ⟨⟨h1, rfl⟩, ⟨xs, [], ⟨?_, ?_⟩, ?_, by rw [hq']; simp, ?_⟩, by simp, ?_, by rw [h5]; exact hR.noViol,
+    by rw [h6]; exact hR.noAsrt, by rw [h7]; exact hR.doorN⟩
+  · intro o h st' ho
+    obtain ⟨_, e1, e2⟩ := hpend o h st' ho
+    rw [e1, e2, h2]; exact hch
+  · intro hn
+    have := hn a
+    rw [h4, Mutex.upd_same] at this; cases this
+  · rw [h3, hqn]; exact ChainIs.nil _
+  · intro n hn
+    rw [h8, hkey]
+    exact hlv n (by simpa using hn)
+  · intro o h st' ho
+    obtain ⟨e0, _, e2⟩ := hpend o h st' ho
+    subst e0
+    rw [h3, hkey, e2]
+    exact ⟨hqn, hst⟩
+
+theorem filter_ne_of_not_mem (l : List Nat) (a : Nat) (h : a ∉ l) :
+    (l ++ [a]).filter (fun x => decide (x ≠ a)) = l := by
+  rw [List.filter_append]
+  have : l.filter (fun x => decide (x ≠ a)) = l := List.filter_eq_self.2 (fun x hx => by
+    simp only [decide_eq_true_eq]; rintro rfl; exact h hx)
+  rw [this]; simp
+
+/-- `build_queue(self)` of the requester that found the mutex free -/
+theorem sim_build (hR : ReprL c ps req q) (hI : Inv c (absWith ps req q)) (hpa : ps.pend a = none)
+    (hpc : ps.pc a = Pc.build) : SimStep c (stepCore c ps t a) (Mutex.agentStep c (absWith ps req q) t a) := by
+  have hown : Owner (absWith ps req q) a := by simp [Owner, hpc, Mutex.isOwner]
+  have hnone := pend_none_of_owner hR hI hown hpa
+  obtain ⟨_, hq⟩ := hI.bld a hpc
+  obtain ⟨xs, k, hxs⟩ := (Mutex.nodeEnd_iff a _).1 (hI.bldEnd a hpc)
+  simp only [absWith_req, absWith_queue] at hq hxs
+  have hk : k = keyOf c ps a := (hR.stk (a, k) (by rw [hxs, nodesN_nodesL]; simp)).2
+  subst hk
+  have hnd := inv_nodup hI
+  simp only [absWith_req, absWith_queue, hxs, Mutex.nodesOf_nodesL, hq, List.nil_append] at hnd
+  have ha : a ∉ xs.map (·.1) := by
+    intro h
+    have := (List.nodup_append.1 hnd).2.2 a h a (by simp [nodesOf])
+    exact this rfl
+  have haxs : (a, keyOf c ps a) ∉ xs := fun h => ha (mem_map_fst h)
+  have hst := hR.stack
+  rw [hxs] at hst
+  have hch := ((stackIs_nodeEnd xs (a, keyOf c ps a) haxs).1 hst).1
+  have hs : seenOf req = ps.requests := stackIs_seen hR.stack
+  unfold stepCore Mutex.agentStep
+  simp only [absWith_pc, hpc, absWith_req, absWith_queue, hs]
+  refine ⟨rfl, rfl, ?_⟩
+  refine reprL_xchg (a := a) hR hnone hq hch (fun n hn => hR.stk n (by rw [hxs, nodesN_nodesL]; simp [hn])) ?_
+    rfl rfl rfl rfl rfl rfl rfl rfl rfl (Or.inl ⟨by simp [setPc], rfl⟩)
+  show ((nodesOf req).filter (fun x => decide (x ≠ a))).reverse ++ q = _
+  rw [hxs, Mutex.nodesOf_nodesL, hq]
+  simp only [nodesOf, List.append_nil]
+  rw [filter_ne_of_not_mem _ _ ha, List.map_reverse]
+
+/-- `build_queue(doorman)` of the releasing owner whose fast path failed -/
+theorem sim_relBuild (hR : ReprL c ps req q) (hI : Inv c (absWith ps req q)) (hpa : ps.pend a = none)
+    (hpc : ps.pc a = Pc.relBuild) : SimStep c (stepCore c ps t a) (Mutex.agentStep c (absWith ps req q) t a) := by
+  have hown : Owner (absWith ps req q) a := by simp [Owner, hpc, Mutex.isOwner]
+  have hnone := pend_none_of_owner hR hI hown hpa
+  obtain ⟨hq, _⟩ := hI.relB a hpc
+  obtain ⟨xs, hxs⟩ := (Mutex.doorEnd_iff _).1 (hI.door a hown (by simp [hpc]))
+  simp only [absWith_req, absWith_queue] at hq hxs
+  have hst := hR.stack
+  rw [hxs] at hst
+  have hch := (stackIs_door xs).1 hst
+  have hs : seenOf req = ps.requests := stackIs_seen hR.stack
+  unfold stepCore Mutex.agentStep
+  simp only [absWith_pc, hpc, absWith_req, absWith_queue, hs]
+  refine ⟨rfl, rfl, ?_⟩
+  refine reprL_xchg (a := a) hR hnone hq hch (fun n hn => hR.stk n (by rw [hxs, nodesN_nodesL]; simp [hn])) ?_
+    rfl rfl rfl rfl rfl rfl rfl rfl rfl (Or.inr ⟨by simp [setPc], rfl⟩)
+  show (nodesOf req).reverse ++ q = _
+  rw [hxs, Mutex.nodesOf_nodesL, hq]
+  simp [nodesOf, List.map_reverse]
+
+
+/-! ### `unlock`: the hand-over -/
+
+/-- the control part of `Mutex.handOver` after the head `b` of the queue has been taken off -/
+def lgrant (c : Cfg) (s : Mutex.State) (t a b : Nat) : Mutex.State × List Ev × Outcome :=
+  match Mutex.flOf c s b with
+  | some Flavour.co =>
+      match c.kind a with
+      | AKind.sync =>
+          ({ Mutex.setPc (Mutex.setPc s b Pc.crit) a Pc.relDone with cur := upd s.cur t (some b) }, [], Outcome.continue_)
+      | AKind.coro =>
+          match Mutex.relOf c s a with
+          | some Rel.a =>
+              ({ Mutex.setPc (Mutex.setPc s b Pc.crit) a Pc.relDone with
+                   rq := upd s.rq t (s.rq t ++ [a]), cur := upd s.cur t (some b) },
+               [], Outcome.suspended)
+          | _ =>
+              ({ Mutex.setPc (Mutex.setPc s b Pc.crit) a Pc.relDone with rq := upd s.rq t (s.rq t ++ [b]) }, [],
+               Outcome.continue_)
+  | some Flavour.cb =>
+      ({ Mutex.setPc s a Pc.relDone with flag := upd s.flag b true, held := upd s.held (Mutex.objOf c s b) true,
+                                         bad := s.bad || s.held (Mutex.objOf c s b) }, [], Outcome.continue_)
+  | _ =>
+      ({ Mutex.setPc s a Pc.relDone with flag := upd s.flag b true }, [Ev.store t a (s.flagTh b) (s.flagIx b)], Outcome.op)
+
+theorem handOver_cons (c : Cfg) (s : Mutex.State) (t a b : Nat) (rest : List Nat) (hq : s.queue = b :: rest) :
+    Mutex.handOver c s t a =
+      lgrant c { s with queue := rest, grants := upd s.grants b (s.grants b + 1),
+                        grantReqs := s.grantReqs ++ [(b, s.round b)] } t a b := by
+  unfold Mutex.handOver lgrant
+  simp only [hq]
+  rfl
+
+/-- `fn(first)` is control only -/
+theorem sim_grantTo {b : Nat} (hR : ReprL c ps req q) (hnone : ∀ o, ps.pend o = none) :
+    SimStep c (grantTo c ps t a b) (lgrant c (absWith ps req q) t a b) := by
+  have hctl : ∀ ps' : State, ps'.requests = ps.requests → ps'.next = ps.next → ps'.queue = ps.queue → ps'.pend = ps.pend →
+      ps'.viol = ps.viol → ps'.asrt = ps.asrt → ps'.doorNext = ps.doorNext → ps'.live = ps.live → ps'.round = ps.round →
+      ReprL c ps' req q := by
+    intro ps' h1 h2 h3 h4 h5 h6 h7 h8 h9
+    exact reprL_ctl hR h1 h2 h3 h4 h5 h6 h7 (fun n h _ => by rw [h8]; exact h) (fun o ho => absurd (hnone o) ho)
+      (fun o _ => keyOf_round (by rw [h9]))
+  unfold grantTo lgrant
+  simp only [flOf_abs, relOf_abs, objOf_abs]
+  cases hfl : flOf c ps b with
+  | none => exact ⟨rfl, rfl, hctl _ rfl rfl rfl rfl rfl rfl rfl rfl rfl⟩
+  | some f =>
+    cases f with
+    | lock => exact ⟨rfl, rfl, hctl _ rfl rfl rfl rfl rfl rfl rfl rfl rfl⟩
+    | try_ => exact ⟨rfl, rfl, hctl _ rfl rfl rfl rfl rfl rfl rfl rfl rfl⟩
+    | cb => exact ⟨rfl, rfl, hctl _ rfl rfl rfl rfl rfl rfl rfl rfl rfl⟩
+    | co =>
+      simp only []
+      cases hk : c.kind a with
+      | sync => exact ⟨rfl, rfl, hctl _ rfl rfl rfl rfl rfl rfl rfl rfl rfl⟩
+      | coro =>
+        simp only []
+        by_cases hr : relOf c ps a = some Rel.a
+        · simp only [hr]
+          exact ⟨rfl, rfl, hctl _ rfl rfl rfl rfl rfl rfl rfl rfl rfl⟩
+        · split
+          · rename_i h; exact absurd h hr
+          · split
+            · rename_i h; exact absurd h hr
+            · exact ⟨rfl, rfl, hctl _ rfl rfl rfl rfl rfl rfl rfl rfl rfl⟩
+
+/-- taking the head off `_queue`: `_queue = first->_next; first->_next = nullptr` -/
+theorem reprL_pop {b k : Nat} (hR : ReprL c ps req q) (hnone : ∀ o, ps.pend o = none)
+    (hnd : (q ++ nodesOf req).Nodup) (hqu : ps.queue = Seen.node b k) :
+    ∃ rest, q = b :: rest ∧ ReprL c (popHead ps a b k) req rest := by
+  obtain ⟨q0, hQ, hqq, hL⟩ := que_of_no_pend hR hnone
+  have hnd0 := chain_nodup hQ
+  rcases chain_queue_cases hQ with ⟨e, _⟩ | ⟨b', k', l', e, hl, hc'⟩
+  · rw [hqu] at e; cases e
+  · rw [hqu] at e
+    injection e with e1 e2
+    subst e1 e2 hl
+    rw [List.nodup_cons] at hnd0
+    refine ⟨l'.map (·.1), by rw [hqq]; rfl, ?_⟩
+    have hbq : b ∈ q := by rw [hqq]; simp
+    have hbs : (b, k) ∉ nodesN req := by
+      intro h
+      have : b ∈ nodesOf req := by rw [nodesOf_eq_map]; exact mem_map_fst h
+      exact (List.nodup_append.1 hnd).2.2 b hbq b this rfl
+    refine ⟨?_, ⟨[], l', ⟨fun o h st ho => ?_, fun _ => rfl⟩, ?_, by simp, ?_⟩, ?_, ?_, ?_, hR.noAsrt, hR.doorN⟩
+    · rw [popHead_next, popHead_requests]; exact stackIs_frame _ _ hR.stack hbs
+    · rw [popHead_pend, hnone o] at ho; cases ho
+    · rw [popHead_next, popHead_queue]; exact chain_frame _ _ hc' hnd0.1
+    · intro n hn
+      rw [popHead_live, keyOf_popHead]
+      exact hL n (by simp at hn; simp [hn])
+    · intro n hn
+      rw [popHead_live, keyOf_popHead]
+      exact hR.stk n hn
+    · intro o h st ho
+      rw [popHead_pend, hnone o] at ho; cases ho
+    · rw [popHead_viol _ _ _ _ (hL (b, k) (by simp)).1]; exact hR.noViol
+
+theorem sim_handOver (hR : ReprL c ps req q) (hnone : ∀ o, ps.pend o = none) (hnd : (q ++ nodesOf req).Nodup)
+    (hq : q ≠ []) : SimStep c (handOver c ps t a) (Mutex.handOver c (absWith ps req q) t a) := by
+  obtain ⟨q0, hQ, hqq, _⟩ := que_of_no_pend hR hnone
+  rcases chain_queue_cases hQ with ⟨_, e⟩ | ⟨b, k, l', e, _, _⟩
+  · rw [e] at hqq; exact absurd hqq hq
+  · obtain ⟨rest, hqr, hR1⟩ := reprL_pop (a := a) hR hnone hnd e
+    have e1 : handOver c ps t a = grantTo c (popHead ps a b k) t a b := by
+      unfold handOver; rw [e]
+    rw [e1, handOver_cons c (absWith ps req q) t a b rest hqr]
+    exact sim_grantTo hR1 (fun o => by rw [popHead_pend]; exact hnone o)
+
+
+/-! ### `unlock`: entry, fast path, slow path -/
+
+theorem unlockGo_node (c : Cfg) (s : State) (t a b k : Nat) (h : s.queue = Seen.node b k) :
+    unlockGo c s t a = handOver c s t a := by
+  unfold unlockGo; rw [h]
+
+/-- the state after the entry of `unlock` (ownership object disarmed, entry assertion evaluated) -/
+def unlockEntry (c : Cfg) (s : State) (a : Nat) : State :=
+  { s with held := upd s.held (objOf c s a) false, asrt := s.asrt || decide (s.requests = Seen.null) }
+
+theorem unlockStart_held (c : Cfg) (s : State) (t a : Nat) (h : s.held (objOf c s a) = true) :
+    unlockStart c s t a = unlockGo c (unlockEntry c s a) t a := by
+  unfold unlockStart; rw [if_neg (by simp [h])]; rfl
+
+theorem unlockGo_null (c : Cfg) (s : State) (t a : Nat) (h : s.queue = Seen.null) :
+    unlockGo c s t a =
+      if s.requests = Seen.door then
+        ({ setPc s a Pc.relDone with requests := Seen.null }, [Ev.cas t a true Seen.door Seen.null], Outcome.op)
+      else (setPc s a Pc.relBuild, [Ev.cas t a false s.requests Seen.null], Outcome.op) := by
+  unfold unlockGo; rw [h]
+
+theorem lunlockStart_nil (c : Cfg) (s : Mutex.State) (t x : Nat) (hh : s.held (Mutex.objOf c s x) = true)
+    (hq : s.queue = []) :
+    Mutex.unlockStart c s t x =
+      if s.req = [Elem.door] then
+        ({ Mutex.setPc { s with held := upd s.held (Mutex.objOf c s x) false } x Pc.relDone with req := [] },
+         [Ev.cas t x true Seen.door Seen.null], Outcome.op)
+      else (Mutex.setPc { s with held := upd s.held (Mutex.objOf c s x) false } x Pc.relBuild,
+            [Ev.cas t x false (seenOf s.req) Seen.null], Outcome.op) := by
+  unfold Mutex.unlockStart
+  rw [if_neg (by simp [hh])]
+  simp only [hq]
+
+theorem sim_unlockStart (hR : ReprL c ps req q) (hheld : ps.held (objOf c ps a) = true) (hdoor : Mutex.doorEnd req)
+    (hnone : ∀ o, ps.pend o = none) (hnd : (q ++ nodesOf req).Nodup) :
+    SimStep c (unlockStart c ps t a) (Mutex.unlockStart c (absWith ps req q) t a) := by
+  have hne : req ≠ [] := Mutex.doorEnd_ne_nil hdoor
+  have hn : ps.requests ≠ Seen.null := fun h => hne ((stackIs_nil_iff hR.stack).1 h)
+  have hs : seenOf req = ps.requests := stackIs_seen hR.stack
+  rw [unlockStart_held c ps t a hheld]
+  have hR1 : ReprL c (unlockEntry c ps a) req q :=
+    reprL_ctl hR rfl rfl rfl rfl rfl (by show (ps.asrt || decide (ps.requests = Seen.null)) = ps.asrt; simp [hn]) rfl
+      (fun n h _ => h) (fun o ho => absurd (hnone o) ho) (fun o _ => keyOf_round rfl)
+  obtain ⟨q0, hQ, hqq, _⟩ := que_of_no_pend hR hnone
+  rcases chain_queue_cases hQ with ⟨e1, e2⟩ | ⟨b, k, l', e, hl, _⟩
+  · -- `_queue` empty: the fast path CAS
+    have hq : q = [] := by rw [hqq, e2]; rfl
+    subst hq
+    rw [unlockGo_null c (unlockEntry c ps a) t a e1, lunlockStart_nil c (absWith ps req []) t a hheld rfl]
+    by_cases hd : ps.requests = Seen.door
+    · have hrd : req = [Elem.door] := (stackIs_door_iff hR.stack).1 hd
+      rw [if_pos (show (unlockEntry c ps a).requests = Seen.door from hd),
+        if_pos (show (absWith ps req []).req = [Elem.door] from hrd)]
+      refine ⟨rfl, rfl, ?_⟩
+      refine reprL_frame hR1 (show _ = Seen.null from rfl) (by simp) (fun _ _ => rfl) rfl rfl rfl rfl rfl (fun n h _ => h)
+        (fun o ho => absurd (hnone o) ho) (fun o _ => keyOf_round rfl)
+    · have hrd : req ≠ [Elem.door] := fun h => hd ((stackIs_door_iff hR.stack).2 h)
+      rw [if_neg (show ¬ (unlockEntry c ps a).requests = Seen.door from hd),
+        if_neg (show ¬ (absWith ps req []).req = [Elem.door] from hrd)]
+      refine ⟨by show (_, _) = (_, _); rw [show seenOf (absWith ps req []).req = (unlockEntry c ps a).requests from hs], rfl, ?_⟩
+      exact reprL_ctl hR1 rfl rfl rfl rfl rfl rfl rfl (fun n h _ => h) (fun o ho => absurd (hnone o) ho)
+        (fun o _ => keyOf_round rfl)
+  · -- `_queue` not empty: the hand-over
+    have hq : q = b :: l'.map (·.1) := by rw [hqq, hl]; rfl
+    rw [unlockGo_node c (unlockEntry c ps a) t a b k e, Mutex.unlockStart_cons c (absWith ps req q) t a b (l'.map (fun x : Node => x.1)) hheld hq]
+    exact sim_handOver hR1 hnone hnd (by rw [hq]; simp)
+
+/-! ### all cases together -/
+
+/-- **Simulation of the body of a step** (nothing pending for `a`), whatever the pc of `a`. -/
+theorem stepCore_sim (hR : ReprL c ps req q) (hI : Inv c (absWith ps req q)) (hpa : ps.pend a = none) :
+    SimStep c (stepCore c ps t a) (Mutex.agentStep c (absWith ps req q) t a) := by
+  have hnd := inv_nodup hI
+  simp only [absWith_queue, absWith_req] at hnd
+  cases hpc : ps.pc a with
+  | done =>
+    unfold stepCore Mutex.agentStep
+    simp only [absWith_pc, hpc]
+    exact ⟨rfl, rfl, hR⟩
+  | parked =>
+    unfold stepCore Mutex.agentStep
+    simp only [absWith_pc, hpc]
+    exact ⟨rfl, rfl, hR⟩
+  | top => exact sim_top hR hpa hpc
+  | tryFail => exact sim_tryFail hR hI hpa hpc
+  | subInit => exact sim_subInit hR hpa hpc
+  | sub prev => exact sim_sub hR hI hpa hpc
+  | build => exact sim_build hR hI hpa hpc
+  | waitFlag => exact sim_waitFlag hR hpa hpc
+  | blocked => exact sim_blocked hR hpa hpc
+  | crit => exact sim_crit hR hI hpa (Or.inl hpc)
+  | critS => exact sim_crit hR hI hpa (Or.inr hpc)
+  | relBuild => exact sim_relBuild hR hI hpa hpc
+  | relDone => exact sim_relDone hR hI hpa hpc
+  | afterCs =>
+    by_cases hg : relOf c ps a = some Rel.g
+    · exact sim_afterCs_g hR hpa hpc hg
+    · have hown : Owner (absWith ps req q) a := by simp [Owner, hpc, Mutex.isOwner]
+      have hnone := pend_none_of_owner hR hI hown hpa
+      rw [stepCore_afterCs_ng c ps t a hpc hg, Mutex.agentStep_afterCs_ng c (absWith ps req q) t a hpc hg]
+      have hR' : ReprL c { ps with incs := ps.incs - 1 } req q :=
+        ⟨hR.stack, hR.que, hR.stk, hR.pendOwn, hR.noViol, hR.noAsrt, hR.doorN⟩
+      exact sim_unlockStart hR' (hI.unlock_facts (Or.inl hpc)).1 (hI.door a hown (by simp [hpc])) hnone hnd
+  | asg =>
+    have hown : Owner (absWith ps req q) a := by simp [Owner, hpc, Mutex.isOwner]
+    have hnone := pend_none_of_owner hR hI hown hpa
+    rw [stepCore_asg c ps t a hpc, Mutex.agentStep_asg c (absWith ps req q) t a hpc]
+    exact sim_unlockStart hR (hI.unlock_facts (Or.inr hpc)).1 (hI.door a hown (by simp [hpc])) hnone hnd
+  | relHand =>
+    have hown : Owner (absWith ps req q) a := by simp [Owner, hpc, Mutex.isOwner]
+    have hnone := pend_none_of_owner hR hI hown hpa
+    rw [stepCore_relHand c ps t a hpc, Mutex.agentStep_relHand c (absWith ps req q) t a hpc]
+    exact sim_handOver hR hnone hnd (hI.relH a hpc)
+
+
+/-- **Simulation of one activity.**  If the pointer state `ps` represents `(req, q)`, the list-level state with these lists
+    and the control part of `ps` satisfies the list-level invariant, and the loop fuel is at least the length of the queue,
+    then the pointer-level activity `(t, a)` and the list-level activity `(t, a)` produce the same events and outcome, the
+    same control part, and the new pointer state represents exactly the new list-level stack and queue. -/
+theorem agentStep_simL (wf : Nat) (hR : ReprL c ps req q) (hI : Inv c (absWith ps req q)) (hwf : q.length ≤ wf) :
+    SimStep c (agentStep c wf ps t a) (Mutex.agentStep c (absWith ps req q) t a) := by
+  have hR0 : ReprL c { ps with acc := [] } req q :=
+    ⟨hR.stack, hR.que, hR.stk, hR.pendOwn, hR.noViol, hR.noAsrt, hR.doorN⟩
+  obtain ⟨hR1, hab, hpa, _, _⟩ := reprL_flush (c := c) wf a hR0 hI hwf
+  have e : absWith ps req q = absWith (flush wf { ps with acc := [] } a) req q := (hab req q).symm
+  show SimStep c (stepCore c (flush wf { ps with acc := [] } a) t a) _
+  rw [e]
+  exact stepCore_sim hR1 (by rw [← e]; exact hI) hpa
+
+/-- the same in terms of `Repr` -/
+theorem agentStep_sim {ls : Mutex.State} (wf : Nat) (hR : Repr c ps ls) (hI : Inv c ls) (hwf : ls.queue.length ≤ wf)
+    (t a : Nat) :
+    (agentStep c wf ps t a).2 = (Mutex.agentStep c ls t a).2 ∧
+    Repr c (agentStep c wf ps t a).1 (Mutex.agentStep c ls t a).1 := by
+  obtain ⟨e, hL⟩ := hR
+  have h := agentStep_simL (t := t) (a := a) wf hL (by rw [← e]; exact hI) hwf
+  rw [← e] at h
+  exact ⟨h.1, h.2.1, h.2.2⟩
+
+theorem repr_init (c : Cfg) : Repr c (init c) (Mutex.init c) := by
+  refine ⟨rfl, ⟨rfl, ⟨[], [], ⟨fun o h st ho => (by cases ho), fun _ => rfl⟩, ChainIs.nil _, rfl, (by simp)⟩,
+    (by simp [Mutex.init]), fun o h st ho => (by cases ho), rfl, rfl, rfl⟩⟩
+
+/-! ## no chain is longer than the number of contenders -/
+
+theorem pc_done_of_ge {s : Mutex.State} (hs : Mutex.Reachable c s) : ∀ x, c.n ≤ x → s.pc x = Pc.done := by
+  obtain ⟨l, hg, hc⟩ := hs
+  have hpc : s.pc = (Mutex.arun c (Mutex.init c) l).pc := show (Mutex.core s).pc = (Mutex.core (Mutex.arun c (Mutex.init c) l)).pc from congrArg Mutex.State.pc hc
+  rw [hpc]
+  have key : ∀ (l : List (Nat × Nat)) (s0 : Mutex.State), Inv c s0 → (∀ x, c.n ≤ x → s0.pc x = Pc.done) →
+      Mutex.Guarded c s0 l → ∀ x, c.n ≤ x → (Mutex.arun c s0 l).pc x = Pc.done := by
+    intro l
+    induction l with
+    | nil => intro s0 _ h0 _; exact h0
+    | cons p l ih =>
+      intro s0 hI h0 hg
+      refine ih _ (Mutex.inv_step hI p.1 hg.1) ?_ hg.2
+      intro x hx
+      have hxp : x ≠ p.2 := by
+        rintro rfl
+        have := hg.1
+        simp [canRun, h0 _ hx] at this
+      rw [(hI.step_frame p.1 p.2).pc x hxp]
+      split
+      · rename_i hgr
+        exfalso
+        have hgr1 := hgr.1
+        unfold Mutex.grantee at hgr1
+        split at hgr1
+        · have hm : x ∈ s0.queue := List.mem_of_mem_head? hgr1
+          have hl := inv_listed_of_mem hI (Or.inl hm)
+          rw [listed_iff] at hl
+          simp [h0 _ hx] at hl
+        · cases hgr1
+      · exact h0 _ hx
+  exact key l _ (Mutex.inv_init c) (fun x hx => by simp [Mutex.init]; omega) hg
+
+theorem nodup_length_le : ∀ (n : Nat) (l : List Nat), l.Nodup → (∀ x ∈ l, x < n) → l.length ≤ n := by
+  intro n
+  induction n with
+  | zero =>
+    intro l _ h
+    cases l with
+    | nil => simp
+    | cons x l => exact absurd (h x (by simp)) (by omega)
+  | succ n ih =>
+    intro l hnd h
+    have h1 := ih (l.filter (fun x => decide (x ≠ n))) (hnd.sublist List.filter_sublist) (by
+      intro x hx
+      rw [List.mem_filter] at hx
+      have := h x hx.1
+      have hne : x ≠ n := by simpa using hx.2
+      omega)
+    have h2 : l.length = (l.filter (fun x => decide (x ≠ n))).length + l.count n := by
+      rw [List.length_eq_countP_add_countP (fun x => decide (x ≠ n)), List.countP_eq_length_filter]
+      congr 1
+      rw [List.count, List.countP_congr]
+      intro x _
+      simp
+    have h3 : l.count n ≤ 1 := List.nodup_iff_count.1 hnd n
+    omega
+
+/-- the queue and the stack together hold at most one node per contender -/
+theorem lists_length_le {s : Mutex.State} (hs : Mutex.Reachable c s) : (s.queue ++ nodesOf s.req).length ≤ c.n := by
+  have hI := Mutex.inv_reachable hs
+  refine nodup_length_le c.n _ (inv_nodup hI) ?_
+  intro x hx
+  have hl := inv_listed_of_mem hI (List.mem_append.1 hx)
+  apply Classical.byContradiction
+  intro hge
+  have := pc_done_of_ge hs x (by omega)
+  rw [listed_iff] at hl
+  simp [this] at hl
+
+theorem queue_length_le {s : Mutex.State} (hs : Mutex.Reachable c s) : s.queue.length ≤ c.n := by
+  have := lists_length_le hs
+  rw [List.length_append] at this
+  omega
+
+/-! ## simulation along runs of agent activities -/
+
+/-- **Simulation along every guarded run.**  From related states (the list-level one reachable), the pointer-level run and
+    the list-level run of the same activity list end in related states. -/
+theorem arun_sim (wf : Nat) (hwf : c.n ≤ wf) : ∀ (l : List (Nat × Nat)) (ps : State) (ls : Mutex.State),
+    Mutex.Reachable c ls → Repr c ps ls → Mutex.Guarded c ls l → Repr c (arun c wf ps l) (Mutex.arun c ls l) := by
+  intro l
+  induction l with
+  | nil => intro ps ls _ hR _; exact hR
+  | cons p l ih =>
+    intro ps ls hs hR hg
+    have h := agentStep_sim wf hR (Mutex.inv_reachable hs) (by have := queue_length_le hs; omega) p.1 p.2
+    exact ih _ _ (Mutex.reachable_step hs p.1 hg.1) h.2 hg.2
+
+/-- every state of the pointer-level machine reached from `init` by a guarded activity list is related to the list-level
+    state reached by the same list -/
+theorem repr_run (wf : Nat) (hwf : c.n ≤ wf) (l : List (Nat × Nat)) (hg : Mutex.Guarded c (Mutex.init c) l) :
+    Repr c (arun c wf (init c) l) (Mutex.arun c (Mutex.init c) l) :=
+  arun_sim wf hwf l _ _ (Mutex.reachable_init c) (repr_init c) hg
+
+/-! ## the abstraction function computes the related list-level state -/
+
+theorem follow_stack {next : Node → Ptr} : ∀ (r : List Elem) (p : Ptr) (fuel : Nat), StackIs next p r →
+    (nodesN r).length ≤ fuel →
+    (follow next fuel p).1.map (fun n => Elem.node n.1 n.2) ++ (if (follow next fuel p).2 = Seen.door then [Elem.door] else []) = r := by
+  intro r
+  induction r with
+  | nil =>
+    intro p fuel h _
+    have : p = Seen.null := h
+    subst this
+    cases fuel <;> simp [follow]
+  | cons e r ih =>
+    intro p fuel h hf
+    cases e with
+    | door =>
+      obtain ⟨e1, e2⟩ := h
+      subst e1 e2
+      cases fuel <;> simp [follow]
+    | node x k =>
+      obtain ⟨e1, h2⟩ := h
+      subst e1
+      cases fuel with
+      | zero => simp at hf
+      | succ f =>
+        have := ih (next (x, k)) f h2 (by simp at hf; omega)
+        simp only [follow, List.map_cons, List.cons_append]
+        exact congrArg (fun z => Elem.node x k :: z) this
+
+theorem follow_chain {next : Node → Ptr} {p stop : Ptr} {l : List Node} (h : ChainIs next p l stop)
+    (hs : ∀ a k, stop ≠ Seen.node a k) : ∀ fuel, l.length ≤ fuel → (follow next fuel p).1 = l := by
+  induction h with
+  | nil stop =>
+    intro fuel _
+    cases fuel with
+    | zero => rfl
+    | succ f => cases stop <;> first | rfl | exact absurd rfl (hs _ _)
+  | cons _ _ ih =>
+    intro fuel hf
+    cases fuel with
+    | zero => simp at hf
+    | succ f => simp only [follow]; rw [ih hs f (by simp at hf; omega)]
+
+theorem follow_chain_null {next : Node → Ptr} {p : Ptr} {l : List Node} (h : ChainIs next p l Seen.null) :
+    ∀ fuel, l.length ≤ fuel → (follow next fuel p).1 = l :=
+  follow_chain h (fun _ _ h => by cases h)
+
+theorem followTo_chain {next : Node → Ptr} {p stop : Ptr} {l : List Node} (h : ChainIs next p l stop) :
+    ∀ fuel, l.length ≤ fuel → followTo next stop fuel p = l := by
+  induction h with
+  | nil => intro fuel _; cases fuel <;> simp [followTo]
+  | cons hne _ ih =>
+    intro fuel hf
+    cases fuel with
+    | zero => simp at hf
+    | succ f => simp only [followTo, if_neg hne]; rw [ih f (by simp at hf; omega)]
+
+theorem filterMap_range_single {α} (f : Nat → Option α) (o : Nat) (v : α) (ho : f o = some v)
+    (hu : ∀ o', o' ≠ o → f o' = none) : ∀ n, (List.range n).filterMap f = if o < n then [v] else [] := by
+  intro n
+  induction n with
+  | zero => simp
+  | succ n ih =>
+    rw [List.range_succ, List.filterMap_append, ih]
+    by_cases h1 : o < n
+    · have : f n = none := hu n (by omega)
+      simp [h1, this, show o < n + 1 by omega]
+    · by_cases h2 : o = n
+      · subst h2; simp [ho]
+      · have : f n = none := hu n (fun e => h2 e.symm)
+        simp [h1, this, show ¬ o < n + 1 by omega]
+
+theorem filterMap_range_none {α} (f : Nat → Option α) (hu : ∀ o, f o = none) (n : Nat) : (List.range n).filterMap f = [] := by
+  induction n with
+  | zero => rfl
+  | succ n ih => rw [List.range_succ, List.filterMap_append, ih]; simp [hu n]
+
+/-- **`abs` computes the list-level state**: a pointer state related to a reachable list-level state abstracts to it -/
+theorem abs_of_repr {ls : Mutex.State} (hs : Mutex.Reachable c ls) (hR : Repr c ps ls) : abs c ps = ls := by
+  obtain ⟨e, hL⟩ := hR
+  have hI := Mutex.inv_reachable hs
+  have hlen := lists_length_le hs
+  rw [List.length_append] at hlen
+  have hreq : absReq (c.n + 1) ps = ls.req := by
+    unfold absReq
+    refine follow_stack _ _ _ hL.stack ?_
+    have : (nodesN ls.req).length = (nodesOf ls.req).length := by rw [nodesOf_eq_map]; simp
+    omega
+  obtain ⟨det, q0, hP, hQ, hq, _⟩ := hL.que
+  have hlq : det.length + q0.length = ls.queue.length := by rw [hq]; simp
+  have hq0 : (follow ps.next (c.n + 1) ps.queue).1 = q0 := follow_chain_null hQ _ (by omega)
+  have hdet : absDet (c.n + 1) ps c.n = det := by
+    unfold absDet
+    by_cases hn : ∀ o, ps.pend o = none
+    · rw [filterMap_range_none _ hn, hP.2 hn]; rfl
+    · have hex : ∃ o, ps.pend o ≠ none := Classical.byContradiction (fun h => hn (fun o =>
+        Classical.byContradiction (fun h' => h ⟨o, h'⟩)))
+      obtain ⟨o, ho⟩ := hex
+      cases hp : ps.pend o with
+      | none => exact absurd hp ho
+      | some x =>
+        obtain ⟨h, st⟩ := x
+        have hown : Owner ls o := by rw [e]; exact pend_owner hL ho
+        have hu : ∀ o', o' ≠ o → ps.pend o' = none := by
+          intro o' hne
+          cases hp' : ps.pend o' with
+          | none => rfl
+          | some y =>
+            have : Owner ls o' := by rw [e]; exact pend_owner hL (by rw [hp']; simp)
+            exact absurd (hI.excl o' o this hown) hne
+        have hon : o < c.n := by
+          apply Classical.byContradiction
+          intro hge
+          have := pc_done_of_ge hs o (by omega)
+          simp [Owner, this, Mutex.isOwner] at hown
+        rw [filterMap_range_single _ o (h, st) hp hu, if_pos hon]
+        simp only [List.flatMap_cons, List.flatMap_nil, List.append_nil]
+        exact followTo_chain (hP.1 o h st hp) _ (by omega)
+  have hque : absQueue (c.n + 1) ps c.n = ls.queue := by
+    unfold absQueue; rw [hdet, hq0, hq]
+  unfold abs
+  rw [hreq, hque]
+  exact e.symm
+
+/-- **`abs (pstep ps a) = lstep (abs ps) a`**: in a pointer state related to a reachable list-level state, every activity
+    permitted by `canRun` commutes with the abstraction function, and both levels emit the same events and outcome. -/
+theorem abs_agentStep {ls : Mutex.State} (wf : Nat) (hwf : c.n ≤ wf) (hs : Mutex.Reachable c ls) (hR : Repr c ps ls)
+    (hcan : canRun ls a = true) :
+    abs c (agentStep c wf ps t a).1 = (Mutex.agentStep c (abs c ps) t a).1 ∧
+    (agentStep c wf ps t a).2 = (Mutex.agentStep c (abs c ps) t a).2 := by
+  rw [abs_of_repr hs hR]
+  have h := agentStep_sim wf hR (Mutex.inv_reachable hs) (by have := queue_length_le hs; omega) t a
+  exact ⟨abs_of_repr (Mutex.reachable_step hs t hcan) h.2, h.1⟩
+
+/-! ## simulation of the executor glue (`threadStep`): every schedule of OS threads -/
+
+/-- agents outside the configuration never run -/
+def PcDone (c : Cfg) (s : Mutex.State) : Prop := ∀ x, c.n ≤ x → s.pc x = Pc.done
+
+theorem pcDone_arun : ∀ (l : List (Nat × Nat)) (s0 : Mutex.State), Inv c s0 → PcDone c s0 →
+    Mutex.Guarded c s0 l → PcDone c (Mutex.arun c s0 l) := by
+  intro l
+  induction l with
+  | nil => intro s0 _ h0 _; exact h0
+  | cons p l ih =>
+    intro s0 hI h0 hg
+    refine ih _ (Mutex.inv_step hI p.1 hg.1) ?_ hg.2
+    intro x hx
+    have hxp : x ≠ p.2 := by
+      rintro rfl
+      have := hg.1
+      simp [canRun, h0 _ hx] at this
+    rw [(hI.step_frame p.1 p.2).pc x hxp]
+    split
+    · rename_i hgr
+      exfalso
+      have hgr1 := hgr.1
+      unfold Mutex.grantee at hgr1
+      split at hgr1
+      · have hm : x ∈ s0.queue := List.mem_of_mem_head? hgr1
+        have hl := inv_listed_of_mem hI (Or.inl hm)
+        rw [listed_iff] at hl
+        simp [h0 _ hx] at hl
+      · cases hgr1
+    · exact h0 _ hx
+
+theorem queue_length_le_of {s : Mutex.State} (hI : Inv c s) (hD : PcDone c s) : s.queue.length ≤ c.n := by
+  have : (s.queue ++ nodesOf s.req).length ≤ c.n := by
+    refine nodup_length_le c.n _ (inv_nodup hI) ?_
+    intro x hx
+    have hl := inv_listed_of_mem hI (List.mem_append.1 hx)
+    apply Classical.byContradiction
+    intro hge
+    have := hD x (by omega)
+    rw [listed_iff] at hl
+    simp [this] at hl
+  rw [List.length_append] at this
+  omega
+
+/-- the executor's bookkeeping is not part of what the pointers represent -/
+theorem repr_set_cur {ls : Mutex.State} (hR : Repr c ps ls) (cu : Nat → Option Nat) :
+    Repr c { ps with cur := cu } { ls with cur := cu } := by
+  obtain ⟨e, hL⟩ := hR
+  refine ⟨?_, ⟨hL.stack, hL.que, hL.stk, hL.pendOwn, hL.noViol, hL.noAsrt, hL.doorN⟩⟩
+  show ({ ls with cur := cu } : Mutex.State) = { absWith ps ls.req ls.queue with cur := cu }
+  rw [← e]
+
+theorem repr_glue {ls : Mutex.State} (hR : Repr c ps ls) (cu : Nat → Option Nat) (r : Nat → List Nat) (tm : Nat → TMain) :
+    Repr c { ps with cur := cu, rq := r, tmain := tm } { ls with cur := cu, rq := r, tmain := tm } := by
+  obtain ⟨e, hL⟩ := hR
+  refine ⟨?_, ⟨hL.stack, hL.que, hL.stk, hL.pendOwn, hL.noViol, hL.noAsrt, hL.doorN⟩⟩
+  show ({ ls with cur := cu, rq := r, tmain := tm } : Mutex.State) =
+    { absWith ps ls.req ls.queue with cur := cu, rq := r, tmain := tm }
+  rw [← e]
+
+theorem repr_cur {ls : Mutex.State} (hR : Repr c ps ls) : ps.cur = ls.cur ∧ ps.rq = ls.rq ∧ ps.tmain = ls.tmain := by
+  obtain ⟨e, _⟩ := hR
+  rw [e]; exact ⟨rfl, rfl, rfl⟩
+
+theorem pair_app {α β} (x : α × List β) (e : List β) :
+    (match x with | (s, e3) => (s, e ++ e3)) = (x.1, e ++ x.2) := by cases x; rfl
+
+/-- **`threadStep` refines `Mutex.threadStep`**: what an OS thread does between two scheduling points, at pointer level and
+    at list level, produces the same events and ends in related states. -/
+theorem threadStep_sim (hwf : c.WFT) (wf : Nat) (hn : c.n ≤ wf) : ∀ (fuel : Nat) (ls : Mutex.State) (t : Nat) (ps : State),
+    Inv c ls → PcDone c ls → TInv c ls → LInv c ls → WakeOk ls t → Repr c ps ls →
+    (threadStep c wf fuel ps t).2 = (Mutex.threadStep c fuel ls t).2 ∧
+    Repr c (threadStep c wf fuel ps t).1 (Mutex.threadStep c fuel ls t).1 := by
+  intro fuel
+  induction fuel with
+  | zero => intro ls t ps _ _ _ _ _ hR; exact ⟨rfl, hR⟩
+  | succ fuel ih =>
+    intro ls t ps hI hD hT hL hW hR
+    obtain ⟨hcu, hrq, htm⟩ := repr_cur hR
+    rw [threadStep, Mutex.threadStep, hcu, hrq, htm]
+    cases hcur : ls.cur t with
+    | some b =>
+      dsimp only
+      have hkb := hT.curK t b hcur
+      have hrun : RunsAs c ls t b := Or.inr ⟨hkb, hcur⟩
+      have hw : ls.pc b = Pc.blocked → ls.flag b = true := by
+        intro h; have := hI.kindW' hwf (Or.inr h); rw [hkb] at this; cases this
+      obtain ⟨l0, hl0, he, hI1, hT1⟩ := Mutex.sim_act hwf.1 hI hT hrun hw
+      have hD1 : PcDone c (Mutex.agentStep c ls t b).1 := by rw [he]; exact pcDone_arun l0 ls hI hD hl0
+      have hE := Mutex.agentStep_exec hwf.1 ls t b
+      have hP := Mutex.agentStep_place c ls t b
+      have hL1 : LInv c (Mutex.agentStep c ls t b).1 :=
+        Mutex.linv_agentStep hwf hI hL hrun (hL.live t (Or.inl (by rw [hcur]; simp)))
+      have hnb : (Mutex.agentStep c ls t b).1.tmain t = TMain.syncBody → (Mutex.agentStep c ls t b).1.pc t ≠ Pc.blocked := by
+        intro htm hpc
+        rw [hE.tmain] at htm
+        have hbt : t ≠ b := by
+          rintro rfl; have := hT.syncK t htm; rw [hkb] at this; cases this
+        rw [(hI.step_frame t b).pc t hbt] at hpc
+        split at hpc
+        · cases hpc
+        · have := (hT.blk t htm hpc).1; rw [hcur] at this; cases this
+      obtain ⟨hev, hR1⟩ := agentStep_sim wf hR hI (by have := queue_length_le_of hI hD; omega) t b
+      have hev1 : (agentStep c wf ps t b).2.1 = (Mutex.agentStep c ls t b).2.1 := congrArg Prod.fst hev
+      have hev2 : (agentStep c wf ps t b).2.2 = (Mutex.agentStep c ls t b).2.2 := congrArg Prod.snd hev
+      rw [hev1, hev2]
+      generalize (agentStep c wf ps t b).fst = ps1 at *
+      generalize hs1 : (Mutex.agentStep c ls t b).fst = ls1 at *
+      generalize (Mutex.agentStep c ls t b).2.fst = e1
+      generalize (Mutex.agentStep c ls t b).2.snd = o at *
+      have hW1 : WakeOk ls1 t := fun _ _ htm hpc => absurd hpc (hnb htm)
+      obtain ⟨hcu1, _, _⟩ := repr_cur hR1
+      have hfin : (canRun ls1 b = false ∨ b ∈ ls1.rq t) →
+          (threadStep c wf fuel (if ps1.cur t = some b then { ps1 with cur := upd ps1.cur t none } else ps1) t).2 =
+            (Mutex.threadStep c fuel (if ls1.cur t = some b then { ls1 with cur := upd ls1.cur t none } else ls1) t).2 ∧
+          Repr c (threadStep c wf fuel (if ps1.cur t = some b then { ps1 with cur := upd ps1.cur t none } else ps1) t).1
+            (Mutex.threadStep c fuel (if ls1.cur t = some b then { ls1 with cur := upd ls1.cur t none } else ls1) t).1 := by
+        intro hnr
+        rw [hcu1]
+        split
+        · rename_i hc1
+          exact ih _ t _ (Mutex.inv_core_congr (s1 := ls1) rfl hI1) hD1 (Mutex.tinv_clear_cur hT1 t)
+            (Mutex.linv_clear_cur hL1 hc1 hnr) (fun _ _ htm hpc => absurd hpc (hnb htm)) (repr_set_cur hR1 _)
+        · exact ih _ t _ hI1 hD1 hT1 hL1 hW1 hR1
+      cases o <;> dsimp only
+      · exact ⟨rfl, hR1⟩
+      · exact ⟨rfl, hR1⟩
+      · have h := hfin (Or.inl (by simp [canRun, (hP.fin rfl).1]))
+        exact ⟨by rw [h.1], h.2⟩
+      · have h := hfin (by
+          rcases hP.susp rfl with h | h
+          · exact Or.inl (by simp [canRun, h])
+          · exact Or.inr h)
+        exact ⟨by rw [h.1], h.2⟩
+      · have h := ih _ t _ hI1 hD1 hT1 hL1 hW1 hR1
+        exact ⟨by rw [h.1], h.2⟩
+    | none =>
+      dsimp only
+      cases hrql : ls.rq t with
+      | cons b rest =>
+        dsimp only
+        exact ih _ t _ (Mutex.inv_core_congr (s1 := ls) rfl hI) hD (Mutex.tinv_pop hT hrql) (Mutex.linv_pop hL hcur hrql)
+          (fun h => by simp at h) (repr_glue hR _ _ _)
+      | nil =>
+        dsimp only
+        cases html : ls.tmain t with
+        | finished => exact ⟨rfl, hR⟩
+        | coroStart =>
+          dsimp only
+          exact ih _ t _ (Mutex.inv_core_congr (s1 := ls) rfl hI) hD (Mutex.tinv_start hT html)
+            (Mutex.linv_start hL hcur html) (fun h => by simp at h) (repr_glue hR _ _ _)
+        | coroFlush => exact ⟨rfl, repr_glue hR _ _ _⟩
+        | syncBody =>
+          dsimp only
+          have hkt := hT.syncK t html
+          have hrun : RunsAs c ls t t := Or.inl ⟨hkt, rfl, hcur, hrql⟩
+          obtain ⟨l0, hl0, he, hI1, hT1⟩ := Mutex.sim_act hwf.1 hI hT hrun (hW hcur hrql html)
+          have hD1 : PcDone c (Mutex.agentStep c ls t t).1 := by rw [he]; exact pcDone_arun l0 ls hI hD hl0
+          have hbo := Mutex.agentStep_blocked_outcome c ls t t
+          have hL1 : LInv c (Mutex.agentStep c ls t t).1 := Mutex.linv_agentStep hwf hI hL hrun (by rw [html]; simp)
+          obtain ⟨hev, hR1⟩ := agentStep_sim wf hR hI (by have := queue_length_le_of hI hD; omega) t t
+          have hev1 : (agentStep c wf ps t t).2.1 = (Mutex.agentStep c ls t t).2.1 := congrArg Prod.fst hev
+          have hev2 : (agentStep c wf ps t t).2.2 = (Mutex.agentStep c ls t t).2.2 := congrArg Prod.snd hev
+          rw [hev1, hev2]
+          generalize (agentStep c wf ps t t).fst = ps1 at *
+          generalize hs1 : (Mutex.agentStep c ls t t).fst = ls1 at *
+          generalize (Mutex.agentStep c ls t t).2.fst = e1
+          generalize ho : (Mutex.agentStep c ls t t).2.snd = o at *
+          cases o <;> dsimp only
+          · exact ⟨rfl, hR1⟩
+          · exact ⟨rfl, hR1⟩
+          · obtain ⟨h1, h2, h3⟩ := repr_cur hR1
+            rw [h1, h2, h3]
+            exact ⟨rfl, repr_glue hR1 _ _ _⟩
+          · have h := ih _ t _ hI1 hD1 hT1 hL1 (fun _ _ _ hpc => by have := hbo hpc; cases this) hR1
+            exact ⟨by rw [h.1], h.2⟩
+          · have h := ih _ t _ hI1 hD1 hT1 hL1 (fun _ _ _ hpc => by have := hbo hpc; cases this) hR1
+            exact ⟨by rw [h.1], h.2⟩
+
+
+theorem enabled_repr {ls : Mutex.State} (hR : Repr c ps ls) (t : Nat) : enabled ps t = Mutex.enabled ls t := by
+  obtain ⟨e, _⟩ := hR
+  rw [e]; rfl
+
+/-- **Simulation along every schedule of OS threads.**  Running the pointer-level machine and the list-level machine under
+    the same schedule of enabled threads (the harness' baton scheduler) keeps them related; in particular the pointer state
+    after any schedule represents exactly the list-level stack and queue after that schedule. -/
+theorem trun_sim (hwf : c.WFT) (wf : Nat) (hn : c.n ≤ wf) (fuel : Nat) : ∀ (ts : List Nat) (ls : Mutex.State) (ps : State),
+    Mutex.Reachable c ls → TInv c ls → LInv c ls → Repr c ps ls → Mutex.TGuarded c fuel ls ts →
+    Repr c (trun c wf fuel ps ts) (Mutex.trun c fuel ls ts) ∧ Mutex.Reachable c (Mutex.trun c fuel ls ts) ∧
+    TInv c (Mutex.trun c fuel ls ts) ∧ LInv c (Mutex.trun c fuel ls ts) := by
+  intro ts
+  induction ts with
+  | nil => intro ls ps hs hT hL hR _; exact ⟨hR, hs, hT, hL⟩
+  | cons t ts ih =>
+    intro ls ps hs hT hL hR hg
+    obtain ⟨h1, h2, h3⟩ := Mutex.threadStep_reachable hwf hs hT hL fuel t hg.1
+    have h := threadStep_sim hwf wf hn fuel ls t ps (Mutex.inv_reachable hs) (pc_done_of_ge hs) hT hL
+      (Mutex.wakeOk_of_enabled hg.1) hR
+    exact ih _ _ h1 h2 h3 h.2 hg.2
+
+/-- … from the initial states, together with the events of the next thread step -/
+theorem trun_init_sim (hwf : c.WFT) (wf : Nat) (hn : c.n ≤ wf) (fuel : Nat) (ts : List Nat)
+    (hg : Mutex.TGuarded c fuel (Mutex.init c) ts) :
+    Repr c (trun c wf fuel (init c) ts) (Mutex.trun c fuel (Mutex.init c) ts) ∧
+    ∀ t, Mutex.enabled (Mutex.trun c fuel (Mutex.init c) ts) t = true →
+      (threadStep c wf fuel (trun c wf fuel (init c) ts) t).2 =
+        (Mutex.threadStep c fuel (Mutex.trun c fuel (Mutex.init c) ts) t).2 := by
+  obtain ⟨hR, hs, hT, hL⟩ := trun_sim hwf wf hn fuel ts _ _ (Mutex.reachable_init c) (Mutex.tinv_init c)
+    (Mutex.linv_init c) (repr_init c) hg
+  refine ⟨hR, fun t he => ?_⟩
+  exact (threadStep_sim hwf wf hn fuel _ t _ (Mutex.inv_reachable hs) (pc_done_of_ge hs) hT hL
+    (Mutex.wakeOk_of_enabled he) hR).1
+
+/-! ## node safety: which nodes a step touches -/
+
+theorem grantTo_acc (c : Cfg) (s : State) (t a b : Nat) : (grantTo c s t a b).1.acc = s.acc := by
+  unfold grantTo
+  split
+  · split
+    · rfl
+    · split <;> rfl
+  · rfl
+  · rfl
+
+/-- the hand-over touches the head node of `_queue` (read `_next`, clear `_next`, read the node to resume it) and nothing else -/
+theorem handOver_acc (c : Cfg) (s : State) (t a : Nat) :
+    (handOver c s t a).1.acc = s.acc ∨ ∃ b k, s.queue = Seen.node b k ∧ (handOver c s t a).1.acc = s.acc ++
+      [⟨a, Seen.node b k, Field.next, false⟩, ⟨a, Seen.node b k, Field.next, true⟩, ⟨a, Seen.node b k, Field.body, false⟩] := by
+  unfold handOver
+  split
+  · exact Or.inl rfl
+  · exact Or.inl rfl
+  · rename_i b k hq
+    exact Or.inr ⟨b, k, hq, by rw [grantTo_acc, popHead_acc]⟩
+
+theorem unlockGo_acc (c : Cfg) (s : State) (t a : Nat) :
+    (unlockGo c s t a).1.acc = s.acc ∨ ∃ b k, s.queue = Seen.node b k ∧ (unlockGo c s t a).1.acc = s.acc ++
+      [⟨a, Seen.node b k, Field.next, false⟩, ⟨a, Seen.node b k, Field.next, true⟩, ⟨a, Seen.node b k, Field.body, false⟩] := by
+  unfold unlockGo
+  split
+  · split <;> exact Or.inl rfl
+  · exact handOver_acc c s t a
+
+theorem unlockStart_acc (c : Cfg) (s : State) (t a : Nat) :
+    (unlockStart c s t a).1.acc = s.acc ∨ ∃ b k, s.queue = Seen.node b k ∧ (unlockStart c s t a).1.acc = s.acc ++
+      [⟨a, Seen.node b k, Field.next, false⟩, ⟨a, Seen.node b k, Field.next, true⟩, ⟨a, Seen.node b k, Field.body, false⟩] := by
+  unfold unlockStart
+  split
+  · exact Or.inl rfl
+  · exact unlockGo_acc c _ t a
+
+theorem subCas_acc (c : Cfg) (s : State) (t a : Nat) (p : Seen) : (subCas c s t a p).1.acc = s.acc := by
+  unfold subCas; split <;> rfl
+
+/-- `subscribe` touches the requester's own node only (set-up in the first iteration, `_next` in every iteration), before
+    the CAS; nothing after it -/
+theorem stepSub_acc (c : Cfg) (s : State) (t a : Nat) (p : Seen) :
+    ∀ x ∈ (stepSub c s t a p).1.acc, x ∈ s.acc ∨ (x.agent = a ∧ x.node = Seen.node a (keyOf c s a)) := by
+  intro x hx
+  unfold stepSub at hx
+  rw [subCas_acc] at hx
+  have : (subWrite c s a p).acc = (create s a (a, keyOf c s a)).acc ++ [⟨a, Seen.node a (keyOf c s a), Field.next, true⟩] := rfl
+  rw [this, List.mem_append] at hx
+  rcases hx with hx | hx
+  · rcases create_acc s a (a, keyOf c s a) with e | e
+    · rw [e] at hx; exact Or.inl hx
+    · rw [e, List.mem_append] at hx
+      rcases hx with hx | hx
+      · exact Or.inl hx
+      · simp at hx; subst hx; exact Or.inr ⟨rfl, rfl⟩
+  · simp at hx; subst hx; exact Or.inr ⟨rfl, rfl⟩
+
+/-- the body of a step touches: at `sub` the agent's own node; at the pcs inside `unlock` the head node of `_queue`;
+    nothing at any other pc -/
+theorem stepCore_acc (c : Cfg) (s : State) (t a : Nat) :
+    ∀ x ∈ (stepCore c s t a).1.acc, x ∈ s.acc ∨
+      ((∃ p, s.pc a = Pc.sub p) ∧ x.agent = a ∧ x.node = Seen.node a (keyOf c s a)) ∨
+      ((s.pc a = Pc.afterCs ∨ s.pc a = Pc.asg ∨ s.pc a = Pc.relHand) ∧ x.agent = a ∧ x.node = s.queue ∧
+        ∃ b k, s.queue = Seen.node b k) := by
+  intro x hx
+  have hpop : ∀ (s' : State) (r : State × List Ev × Outcome), s'.acc = s.acc → s'.queue = s.queue →
+      (r.1.acc = s'.acc ∨ ∃ b k, s'.queue = Seen.node b k ∧ r.1.acc = s'.acc ++
+        [⟨a, Seen.node b k, Field.next, false⟩, ⟨a, Seen.node b k, Field.next, true⟩, ⟨a, Seen.node b k, Field.body, false⟩]) →
+      x ∈ r.1.acc → x ∈ s.acc ∨ (x.agent = a ∧ x.node = s.queue ∧ ∃ b k, s.queue = Seen.node b k) := by
+    intro s' r h1 h2 h hx
+    rcases h with e | ⟨b, k, hq, e⟩
+    · rw [e, h1] at hx; exact Or.inl hx
+    · rw [e, h1, List.mem_append] at hx
+      rw [h2] at hq
+      rcases hx with hx | hx
+      · exact Or.inl hx
+      · right
+        simp at hx
+        rcases hx with rfl | rfl | rfl <;> exact ⟨rfl, hq.symm, b, k, hq⟩
+  cases hpc : s.pc a with
+  | sub prev =>
+    have e : stepCore c s t a = stepSub c s t a prev := by unfold stepCore; simp only [hpc]
+    rw [e] at hx
+    rcases stepSub_acc c s t a prev x hx with h | h
+    · exact Or.inl h
+    · exact Or.inr (Or.inl ⟨⟨prev, rfl⟩, h⟩)
+  | afterCs =>
+    by_cases hg : relOf c s a = some Rel.g
+    · rw [stepCore_afterCs_g c s t a hpc hg] at hx; exact Or.inl hx
+    · rw [stepCore_afterCs_ng c s t a hpc hg] at hx
+      rcases hpop { s with incs := s.incs - 1 } _ rfl rfl (unlockStart_acc c _ t a) hx with h | h
+      · exact Or.inl h
+      · exact Or.inr (Or.inr ⟨Or.inl rfl, h⟩)
+  | asg =>
+    rw [stepCore_asg c s t a hpc] at hx
+    rcases hpop _ _ rfl rfl (unlockStart_acc c _ t a) hx with h | h
+    · exact Or.inl h
+    · exact Or.inr (Or.inr ⟨Or.inr (Or.inl rfl), h⟩)
+  | relHand =>
+    rw [stepCore_relHand c s t a hpc] at hx
+    rcases hpop _ _ rfl rfl (handOver_acc c _ t a) hx with h | h
+    · exact Or.inl h
+    · exact Or.inr (Or.inr ⟨Or.inr (Or.inr rfl), h⟩)
+  | done => unfold stepCore at hx; simp only [hpc] at hx; exact Or.inl hx
+  | parked => unfold stepCore at hx; simp only [hpc] at hx; exact Or.inl hx
+  | top =>
+    unfold stepCore at hx; simp only [hpc] at hx
+    split at hx
+    · exact Or.inl hx
+    · split at hx <;> exact Or.inl hx
+  | tryFail => unfold stepCore at hx; simp only [hpc] at hx; exact Or.inl hx
+  | subInit => unfold stepCore at hx; simp only [hpc] at hx; split at hx <;> exact Or.inl hx
+  | build => unfold stepCore at hx; simp only [hpc] at hx; exact Or.inl hx
+  | waitFlag =>
+    unfold stepCore at hx; simp only [hpc] at hx
+    split at hx <;> split at hx <;> exact Or.inl hx
+  | blocked => unfold stepCore at hx; simp only [hpc] at hx; split at hx <;> exact Or.inl hx
+  | crit => unfold stepCore at hx; simp only [hpc] at hx; exact Or.inl hx
+  | critS => unfold stepCore at hx; simp only [hpc] at hx; exact Or.inl hx
+  | relBuild => unfold stepCore at hx; simp only [hpc] at hx; exact Or.inl hx
+  | relDone => unfold stepCore at hx; simp only [hpc] at hx; split at hx <;> exact Or.inl hx
+
+
+theorem mem_walkAcc {a : Nat} {l : List Node} {x : Access} (h : x ∈ walkAcc a l) :
+    x.agent = a ∧ ∃ n ∈ l, x.node = Seen.node n.1 n.2 := by
+  unfold walkAcc at h
+  rw [List.mem_flatMap] at h
+  obtain ⟨n, hn, hx⟩ := h
+  simp at hx
+  rcases hx with rfl | rfl <;> exact ⟨rfl, n, hn, rfl⟩
+
+/-- **Which nodes an activity touches.**  In a pointer state related to a list-level state satisfying the invariant, every
+    node-field access of the activity `(t, a)` is made by `a` and touches
+
+    * `a`'s own request node while `a` is inside `subscribe` (pc `sub`: before its publishing CAS succeeded), or
+    * the node of an agent in the list-level queue (a granted-next / waiting requester) while `a` owns the mutex (the loop of
+      `build_queue` and the hand-over of `unlock`).
+
+    In particular a requester never touches its node after the publishing CAS (pcs `parked`, `waitFlag`, `blocked`, `build`,
+    `crit` without pending loop have no accesses), and the former owner never touches a node after handing it over (pc
+    `relDone` has none). -/
+theorem agentStep_acc {ls : Mutex.State} (wf : Nat) (hR : Repr c ps ls) (hI : Inv c ls) (hwf : ls.queue.length ≤ wf)
+    (t a : Nat) : ∀ x ∈ (agentStep c wf ps t a).1.acc, x.agent = a ∧
+      (((∃ p, ls.pc a = Pc.sub p) ∧ x.node = Seen.node a (keyOf c ps a)) ∨
+       (Owner ls a ∧ ∃ n : Node, x.node = Seen.node n.1 n.2 ∧ n.1 ∈ ls.queue)) := by
+  obtain ⟨e, hL⟩ := hR
+  intro x hx
+  have hI' : Inv c (absWith ps ls.req ls.queue) := by rw [← e]; exact hI
+  have hR0 : ReprL c { ps with acc := [] } ls.req ls.queue :=
+    ⟨hL.stack, hL.que, hL.stk, hL.pendOwn, hL.noViol, hL.noAsrt, hL.doorN⟩
+  obtain ⟨hR1, hab, hpa, _, l, hacc, hlq, hl0⟩ := reprL_flush (c := c) wf a hR0 hI' hwf
+  have hpc1 : (flush wf { ps with acc := [] } a).pc = ls.pc := by
+    have := congrArg Mutex.State.pc (hab ls.req ls.queue)
+    rw [e]; exact this
+  have hkey1 : keyOf c (flush wf { ps with acc := [] } a) a = keyOf c ps a :=
+    congrArg (fun s => Mutex.keyOf c s a) (hab ls.req ls.queue)
+  have hown_pend : ps.pend a ≠ none → Owner ls a := fun h => by rw [e]; exact pend_owner hL h
+  rcases stepCore_acc c _ t a x hx with h | ⟨⟨p, hp⟩, h1, h2⟩ | ⟨hp, h1, h2, b, k, hq⟩
+  · rw [hacc] at h
+    simp only [List.nil_append] at h
+    obtain ⟨h1, n, hn, h2⟩ := mem_walkAcc h
+    refine ⟨h1, Or.inr ⟨hown_pend (fun hnone => ?_), n, h2, hlq n hn⟩⟩
+    rw [hl0 hnone] at hn; cases hn
+  · rw [hpc1] at hp
+    exact ⟨h1, Or.inl ⟨⟨p, hp⟩, by rw [h2, hkey1]⟩⟩
+  · rw [hpc1] at hp
+    have hown : Owner ls a := by rcases hp with h | h | h <;> simp [Owner, h, Mutex.isOwner]
+    have hI1 : Inv c (absWith (flush wf { ps with acc := [] } a) ls.req ls.queue) := by rw [hab]; exact hI'
+    have hown1 : Owner (absWith (flush wf { ps with acc := [] } a) ls.req ls.queue) a := by
+      rw [hab]; show Owner (absWith ps ls.req ls.queue) a; rw [← e]; exact hown
+    have hnone := pend_none_of_owner hR1 hI1 hown1 hpa
+    obtain ⟨q0, hQ, hqq, _⟩ := que_of_no_pend hR1 hnone
+    refine ⟨h1, Or.inr ⟨hown, (b, k), by rw [h2, hq], ?_⟩⟩
+    rcases chain_queue_cases hQ with ⟨h0, _⟩ | ⟨b', k', l', h0, hl, _⟩
+    · rw [hq] at h0; cases h0
+    · rw [hq] at h0
+      injection h0 with e1 e2
+      subst e1 e2
+      rw [hqq, hl]; simp
+
+
+/-- **No two agents' next segments touch the same node.**  For different agents `a ≠ b` (on any threads), the node accesses
+    of `a`'s next activity and of `b`'s next activity are on different nodes — so no plain field of a request node is ever
+    accessed by two enabled segments (race freedom on `_next` / the awaiter body at interleaving level), which is what makes
+    treating a segment as atomic a reduction. -/
+theorem step_no_conflict {ls : Mutex.State} (wf : Nat) (hR : Repr c ps ls) (hI : Inv c ls) (hwf : ls.queue.length ≤ wf)
+    {a b : Nat} (hab : a ≠ b) (t t' : Nat) :
+    ∀ x ∈ (agentStep c wf ps t a).1.acc, ∀ y ∈ (agentStep c wf ps t' b).1.acc, x.node ≠ y.node := by
+  intro x hx y hy hxy
+  obtain ⟨_, hxa⟩ := agentStep_acc wf hR hI hwf t a x hx
+  obtain ⟨_, hyb⟩ := agentStep_acc wf hR hI hwf t' b y hy
+  have hsub : ∀ (u v : Nat) (p : Seen) (n : Node), ls.pc u = Pc.sub p → Seen.node u v = Seen.node n.1 n.2 → n.1 ∈ ls.queue → False := by
+    intro u v p n hp he hn
+    injection he with e1 _
+    have hl := inv_listed_of_mem hI (Or.inl (e1 ▸ hn))
+    rw [listed_iff] at hl
+    simp [hp] at hl
+  rcases hxa with ⟨⟨p, hp⟩, ex⟩ | ⟨hoa, n, ex, hn⟩ <;> rcases hyb with ⟨⟨p', hp'⟩, ey⟩ | ⟨hob, m, ey, hm⟩
+  · rw [ex, ey] at hxy; injection hxy with e1 _; exact hab e1
+  · rw [ex, ey] at hxy; exact hsub _ _ p m hp hxy hm
+  · rw [ex, ey] at hxy; exact hsub _ _ p' n hp' hxy.symm hn
+  · exact hab (hI.excl a b hoa hob)
+
+/-- **Every linked node is alive**: the nodes of the stack, of the chain a pending `build_queue` loop has to move and of
+    `_queue` — whatever lists the pointers determine (`chain_unique`) — are alive.  (The owner's accesses go to such nodes,
+    `agentStep_acc`; a requester's accesses go to its own node, alive from the set-up at the start of that very segment.) -/
+theorem linked_live {ls : Mutex.State} (hR : Repr c ps ls) :
+    (∀ n ∈ nodesN ls.req, ps.live n = true) ∧
+    ∀ det q0, PendIs ps det → ChainIs ps.next ps.queue q0 Seen.null → ∀ n ∈ det ++ q0, ps.live n = true := by
+  obtain ⟨_, hL⟩ := hR
+  refine ⟨fun n hn => (hL.stk n hn).1, ?_⟩
+  obtain ⟨det, q0, hP, hQ, _, hL'⟩ := hL.que
+  intro det' q0' hP' hQ' n hm
+  have e2 : q0' = q0 := chain_unique hQ' hQ
+  have e1 : det' = det := by
+    by_cases hnone : ∀ o, ps.pend o = none
+    · rw [hP.2 hnone, hP'.2 hnone]
+    · have hex : ∃ o, ps.pend o ≠ none := Classical.byContradiction (fun h => hnone (fun o =>
+        Classical.byContradiction (fun h' => h ⟨o, h'⟩)))
+      obtain ⟨o, ho⟩ := hex
+      cases hp : ps.pend o with
+      | none => exact absurd hp ho
+      | some x => exact chain_unique (hP'.1 o x.1 x.2 hp) (hP.1 o x.1 x.2 hp)
+  subst e1 e2
+  exact (hL' n hm).1
+
+/-- **No activity touches a node that is not alive**, dereferences null or the doorman, or fails an assertion of mutex.h:
+    the ghost flags stay clear across every activity from related states. -/
+theorem step_no_viol {ls : Mutex.State} (wf : Nat) (hR : Repr c ps ls) (hI : Inv c ls) (hwf : ls.queue.length ≤ wf)
+    (t a : Nat) : (agentStep c wf ps t a).1.viol = false ∧ (agentStep c wf ps t a).1.asrt = false ∧
+      (agentStep c wf ps t a).1.doorNext = Seen.null :=
+  have h := (agentStep_sim wf hR hI hwf t a).2.2
+  ⟨h.noViol, h.noAsrt, h.doorN⟩
+
+/-! ## the lists the pointers denote -/
+
+def Ptr.isEnd : Ptr → Prop
+  | Seen.node _ _ => False
+  | _ => True
+
+/-- the walk from `h` over nodes to the first non-node pointer is determined by the pointers -/
+theorem chain_unique_end {next : Node → Ptr} {h s1 s2 : Ptr} {l1 l2 : List Node} (h1 : ChainIs next h l1 s1)
+    (h2 : ChainIs next h l2 s2) (e1 : Ptr.isEnd s1) (e2 : Ptr.isEnd s2) : l1 = l2 ∧ s1 = s2 := by
+  induction h1 generalizing l2 with
+  | nil => cases h2 with
+    | nil => exact ⟨rfl, rfl⟩
+    | cons _ _ => exact absurd e1 (by simp [Ptr.isEnd])
+  | cons _ _ ih => cases h2 with
+    | nil => exact absurd e2 (by simp [Ptr.isEnd])
+    | cons _ h2' =>
+      obtain ⟨r1, r2⟩ := ih h2' e1
+      exact ⟨by rw [r1], r2⟩
+
+theorem stackIs_chain {next : Node → Ptr} : ∀ (r : List Elem) (p : Ptr), StackIs next p r →
+    ∃ bottom, (bottom = Seen.null ∨ bottom = Seen.door) ∧ ChainIs next p (nodesN r) bottom := by
+  intro r
+  induction r with
+  | nil => intro p h; exact ⟨Seen.null, Or.inl rfl, by rw [show p = Seen.null from h]; exact ChainIs.nil _⟩
+  | cons e r ih =>
+    intro p h
+    cases e with
+    | door => exact ⟨Seen.door, Or.inr rfl, by rw [h.1]; exact ChainIs.nil _⟩
+    | node x k =>
+      obtain ⟨b, hb, hc⟩ := ih _ h.2
+      refine ⟨b, hb, ?_⟩
+      rw [h.1]
+      exact ChainIs.cons (by rcases hb with e | e <;> rw [e] <;> intro h' <;> cases h') hc
+
+/-- the lists determined by the pointer fields: `det` — what a pending `build_queue` loop still has to move, `q0` — the
+    chain of `_queue`, `stk` — the chain of `_requests` down to `bottom` (null or the doorman) -/
+structure Links (ps : State) (det q0 stk : List Node) (bottom : Ptr) : Prop where
+  pend : PendIs ps det
+  que : ChainIs ps.next ps.queue q0 Seen.null
+  stack : ChainIs ps.next ps.requests stk bottom
+  bot : bottom = Seen.null ∨ bottom = Seen.door
+
+theorem links_unique {d1 q1 s1 d2 q2 s2 : List Node} {b1 b2 : Ptr} (h1 : Links ps d1 q1 s1 b1) (h2 : Links ps d2 q2 s2 b2) :
+    d1 = d2 ∧ q1 = q2 ∧ s1 = s2 ∧ b1 = b2 := by
+  have hend : ∀ b, (b = Seen.null ∨ b = Seen.door) → Ptr.isEnd b := by
+    rintro b (e | e) <;> rw [e] <;> trivial
+  obtain ⟨e3, e4⟩ := chain_unique_end h1.stack h2.stack (hend _ h1.bot) (hend _ h2.bot)
+  refine ⟨?_, chain_unique h1.que h2.que, e3, e4⟩
+  by_cases hnone : ∀ o, ps.pend o = none
+  · rw [h1.pend.2 hnone, h2.pend.2 hnone]
+  · have hex : ∃ o, ps.pend o ≠ none := Classical.byContradiction (fun h => hnone (fun o =>
+      Classical.byContradiction (fun h' => h ⟨o, h'⟩)))
+    obtain ⟨o, ho⟩ := hex
+    cases hp : ps.pend o with
+    | none => exact absurd hp ho
+    | some x => exact chain_unique (h1.pend.1 o x.1 x.2 hp) (h2.pend.1 o x.1 x.2 hp)
+
+/-- in a state related to a list-level state, the pointers denote its queue and stack, and all linked nodes are alive -/
+theorem links_of_repr {ls : Mutex.State} (hR : Repr c ps ls) :
+    ∃ det q0 bottom, Links ps det q0 (nodesN ls.req) bottom ∧ ls.queue = (det.reverse ++ q0).map (·.1) ∧
+      ∀ n ∈ det ++ q0 ++ nodesN ls.req, ps.live n = true ∧ n.2 = keyOf c ps n.1 := by
+  obtain ⟨_, hL⟩ := hR
+  obtain ⟨det, q0, hP, hQ, hq, hlv⟩ := hL.que
+  obtain ⟨b, hb, hc⟩ := stackIs_chain _ _ hL.stack
+  refine ⟨det, q0, b, ⟨hP, hQ, hc, hb⟩, hq, ?_⟩
+  intro n hn
+  rcases List.mem_append.1 hn with h | h
+  · exact hlv n h
+  · exact hL.stk n h
+
+/-! ## the hand-over in detail -/
+
+theorem grantTo_ptr (c : Cfg) (s : State) (t a b : Nat) :
+    (grantTo c s t a b).1.next = s.next ∧ (grantTo c s t a b).1.live = s.live ∧ (grantTo c s t a b).1.queue = s.queue ∧
+    (grantTo c s t a b).1.pc a = Pc.relDone := by
+  unfold grantTo
+  split
+  · split
+    · exact ⟨rfl, rfl, rfl, by simp [setPc]⟩
+    · split <;> exact ⟨rfl, rfl, rfl, by simp [setPc]⟩
+  · exact ⟨rfl, rfl, rfl, by simp [setPc]⟩
+  · exact ⟨rfl, rfl, rfl, by simp [setPc]⟩
+
+/-- the three accesses of the hand-over on the head node: read `_next`, clear `_next`, read the node to resume it -/
+def popAcc (a b k : Nat) : List Access :=
+  [⟨a, Seen.node b k, Field.next, false⟩, ⟨a, Seen.node b k, Field.next, true⟩, ⟨a, Seen.node b k, Field.body, false⟩]
+
+theorem handOver_node (c : Cfg) (s : State) (t a b k : Nat) (hq : s.queue = Seen.node b k) :
+    (handOver c s t a).1.acc = s.acc ++ popAcc a b k ∧ (handOver c s t a).1.next (b, k) = Seen.null ∧
+    (handOver c s t a).1.live = s.live ∧ (handOver c s t a).1.pc a = Pc.relDone := by
+  have e : handOver c s t a = grantTo c (popHead s a b k) t a b := by unfold handOver; rw [hq]
+  obtain ⟨h1, h2, _, h4⟩ := grantTo_ptr c (popHead s a b k) t a b
+  rw [e, grantTo_acc, h1, h2]
+  exact ⟨popHead_acc .., by simp, rfl, h4⟩
+
+theorem unlockStart_node (c : Cfg) (s : State) (t a b k : Nat) (hh : s.held (objOf c s a) = true)
+    (hq : s.queue = Seen.node b k) :
+    (unlockStart c s t a).1.acc = s.acc ++ popAcc a b k ∧ (unlockStart c s t a).1.next (b, k) = Seen.null ∧
+    (unlockStart c s t a).1.live = s.live ∧ (unlockStart c s t a).1.pc a = Pc.relDone := by
+  rw [unlockStart_held c s t a hh, unlockGo_node c (unlockEntry c s a) t a b k hq]
+  exact handOver_node c (unlockEntry c s a) t a b k hq
+
+/-- **`unlock` unlinks the new owner before resuming it, and the step is the last one that touches its node.**  When the
+    activity of `x` hands the lock over to `b` (`grantee c ls x = some b`): the accesses of that activity end with
+    `read head->_next; write head->_next (= nullptr); read head (resume)` on the node `(b, k)` of `b`, in this order; all
+    earlier accesses of the activity are those of the `build_queue` loop; afterwards `_next` of that node is null, the node
+    is still alive (it dies when `b` itself continues), and `x` is at `relDone`. -/
+theorem handover_step {ls : Mutex.State} (wf : Nat) (hR : Repr c ps ls) (hI : Inv c ls) (hwf : ls.queue.length ≤ wf)
+    (t x b : Nat) (hg : Mutex.grantee c ls x = some b) :
+    ∃ (k : Nat) (l : List Node), (agentStep c wf ps t x).1.acc = walkAcc x l ++ popAcc x b k ∧
+      (agentStep c wf ps t x).1.next (b, k) = Seen.null ∧ (agentStep c wf ps t x).1.live (b, k) = true ∧
+      k = keyOf c ps b ∧ (agentStep c wf ps t x).1.pc x = Pc.relDone := by
+  obtain ⟨e, hL⟩ := hR
+  have hI' : Inv c (absWith ps ls.req ls.queue) := by rw [← e]; exact hI
+  have hR0 : ReprL c { ps with acc := [] } ls.req ls.queue :=
+    ⟨hL.stack, hL.que, hL.stk, hL.pendOwn, hL.noViol, hL.noAsrt, hL.doorN⟩
+  obtain ⟨hR1, hab, hpa, hlv, l, hacc, _, _⟩ := reprL_flush (c := c) wf x hR0 hI' hwf
+  generalize hps1 : flush wf { ps with acc := [] } x = ps1 at *
+  have hls : ls = absWith ps1 ls.req ls.queue := by rw [hab]; exact e
+  have hpc1 : ps1.pc = ls.pc := (congrArg Mutex.State.pc hls).symm
+  -- `x` is inside `unlock` and the queue is not empty
+  unfold Mutex.grantee at hg
+  split at hg
+  case isFalse => cases hg
+  rename_i hun
+  have hxpc : ls.pc x = Pc.afterCs ∨ ls.pc x = Pc.asg ∨ ls.pc x = Pc.relHand := by
+    rcases hun with ⟨h, _⟩ | ⟨h, _⟩ | h
+    · exact Or.inl h
+    · exact Or.inr (Or.inl h)
+    · exact Or.inr (Or.inr h)
+  have hown : Owner ls x := by rcases hxpc with h | h | h <;> simp [Owner, h, Mutex.isOwner]
+  have hI1 : Inv c (absWith ps1 ls.req ls.queue) := by rw [← hls]; exact hI
+  have hnone := pend_none_of_owner hR1 hI1 (by rw [← hls]; exact hown) hpa
+  obtain ⟨q0, hQ, hqq, hlq⟩ := que_of_no_pend hR1 hnone
+  rcases chain_queue_cases hQ with ⟨_, h0⟩ | ⟨b', k, l', hq1, hl', _⟩
+  · rw [hqq, h0] at hg; cases hg
+  have hb : b' = b := by rw [hqq, hl'] at hg; simpa using hg
+  subst hb
+  have hkey : k = keyOf c ps b' := by
+    have h1 : k = keyOf c ps1 b' := (hlq (b', k) (by rw [hl']; simp)).2
+    rw [h1]
+    exact congrArg (fun s => Mutex.keyOf c s b') (hab ls.req ls.queue)
+  have hlive : ps1.live (b', k) = true := (hlq (b', k) (by rw [hl']; simp)).1
+  have hacc1 : ps1.acc = walkAcc x l := by rw [hacc]; rfl
+  refine ⟨k, l, ?_⟩
+  show (stepCore c (flush wf { ps with acc := [] } x) t x).1.acc = _ ∧ (stepCore c (flush wf { ps with acc := [] } x) t x).1.next _ = _ ∧
+    (stepCore c (flush wf { ps with acc := [] } x) t x).1.live _ = _ ∧ _ ∧ (stepCore c (flush wf { ps with acc := [] } x) t x).1.pc x = _
+  rw [hps1]
+  rcases hun with ⟨h, hng, hheld⟩ | ⟨h, hheld⟩ | h
+  · rw [stepCore_afterCs_ng c ps1 t x (by rw [hpc1]; exact h) (by rw [hls] at hng; exact hng)]
+    obtain ⟨a1, a2, a3, a4⟩ := unlockStart_node c { ps1 with incs := ps1.incs - 1 } t x b' k
+      (by rw [hls] at hheld; exact hheld) hq1
+    exact ⟨by rw [a1]; show ps1.acc ++ _ = _; rw [hacc1], a2, by rw [a3]; exact hlive, hkey, a4⟩
+  · rw [stepCore_asg c ps1 t x (by rw [hpc1]; exact h)]
+    obtain ⟨a1, a2, a3, a4⟩ := unlockStart_node c ps1 t x b' k (by rw [hls] at hheld; exact hheld) hq1
+    exact ⟨by rw [a1, hacc1], a2, by rw [a3]; exact hlive, hkey, a4⟩
+  · rw [stepCore_relHand c ps1 t x (by rw [hpc1]; exact h)]
+    obtain ⟨a1, a2, a3, a4⟩ := handOver_node c ps1 t x b' k hq1
+    exact ⟨by rw [a1, hacc1], a2, by rw [a3]; exact hlive, hkey, a4⟩
+
+/-- an activity has node accesses only at these pcs -/
+theorem agentStep_acc_pc {ls : Mutex.State} (wf : Nat) (hR : Repr c ps ls) (hI : Inv c ls) (hwf : ls.queue.length ≤ wf)
+    (t a : Nat) (hne : (agentStep c wf ps t a).1.acc ≠ []) :
+    (∃ p, ls.pc a = Pc.sub p) ∨ ls.pc a = Pc.afterCs ∨ ls.pc a = Pc.asg ∨ ls.pc a = Pc.relHand ∨ ls.pc a = Pc.crit := by
+  obtain ⟨e, hL⟩ := hR
+  have hI' : Inv c (absWith ps ls.req ls.queue) := by rw [← e]; exact hI
+  have hR0 : ReprL c { ps with acc := [] } ls.req ls.queue :=
+    ⟨hL.stack, hL.que, hL.stk, hL.pendOwn, hL.noViol, hL.noAsrt, hL.doorN⟩
+  obtain ⟨_, hab, _, _, l, hacc, _, hl0⟩ := reprL_flush (c := c) wf a hR0 hI' hwf
+  have hpc1 : (flush wf { ps with acc := [] } a).pc = ls.pc := by
+    have := congrArg Mutex.State.pc (hab ls.req ls.queue)
+    rw [e]; exact this
+  obtain ⟨x, hx⟩ := List.exists_mem_of_ne_nil _ hne
+  rcases stepCore_acc c _ t a x hx with h | ⟨⟨p, hp⟩, _⟩ | ⟨hp, _⟩
+  · rw [hacc] at h
+    simp only [List.nil_append] at h
+    have hpn : ps.pend a ≠ none := by
+      intro hn; rw [hl0 hn] at h; simp [walkAcc] at h
+    cases hp : ps.pend a with
+    | none => exact absurd hp hpn
+    | some y =>
+      rcases (hL.pendOwn a y.1 y.2 hp).2 with ⟨h1, _⟩ | ⟨h1, _⟩
+      · right; right; right; right; rw [e]; exact h1
+      · right; right; right; left; rw [e]; exact h1
+  · rw [hpc1] at hp; exact Or.inl ⟨p, hp⟩
+  · rw [hpc1] at hp
+    rcases hp with h | h | h
+    · exact Or.inr (Or.inl h)
+    · exact Or.inr (Or.inr (Or.inl h))
+    · exact Or.inr (Or.inr (Or.inr (Or.inl h)))
 
 end Cocls.MutexPtr
